@@ -1,6 +1,1787 @@
-//! C03 — stub: correspondence harness not built yet.
+//! C03 — queries match exactly the documents their logical meaning prescribes.
+//!
+//! Ties `Model/QuerySem.lean` (spec `sem`/`answer`), `Model/BoolCompile.lean` (scorer-tree model of
+//! `BooleanWeight::scorer`/`complex_scorer`) and `Model/PhraseSlop.lean` (the two slop
+//! algorithms) to the real search path:
+//!  * oracle (implementation alone): every way of obtaining the result — `Count`,
+//!    `DocSetCollector`, `TopDocs(limit ≥ n)`, a tuple collector with scoring, `Query::count`,
+//!    `Weight::scorer`/`Weight::count` with `EnableScoring::disabled_from_searcher` and
+//!    `enabled_from_searcher` — gives the same id set, and that set is the brute-force answer
+//!    over the analysed documents (Lean `answer` is the reference; a native Rust evaluator is a
+//!    second, independent evaluation);
+//!  * model: real result = `searchIds leafTree scoring` of the compile model; real phrase-slop
+//!    paths = the mirrored algorithms; encodings = `Gen.OrderEnc`.
+//! Analysed tokens come from the real analyzer (`Index::tokenizer_for_field`).
+use crate::rng::Rng;
 use crate::Ctx;
+use serde::{Deserialize, Serialize};
+use serde_json::json;
+use std::collections::{BTreeMap, BTreeSet, HashMap};
+use std::net::Ipv6Addr;
+use std::ops::Bound;
+use std::panic::{catch_unwind, AssertUnwindSafe};
+use tantivy::collector::{Count, DocSetCollector, FilterCollector, MultiCollector, TopDocs};
+use tantivy::indexer::NoMergePolicy;
+use tantivy::query::{
+    AllQuery, BooleanQuery, BoostQuery, ConstScoreQuery, DisjunctionMaxQuery, EmptyQuery,
+    EnableScoring, ExistsQuery, FuzzyTermQuery, InvertedIndexRangeQuery, Occur, PhrasePrefixQuery,
+    PhraseQuery, Query, RangeQuery, RegexQuery, TermQuery, TermSetQuery,
+};
+use tantivy::schema::{
+    BytesOptions, DateOptions, Field, IndexRecordOption, IpAddrOptions, JsonObjectOptions, NumericOptions,
+    OwnedValue, Schema, TextFieldIndexing, TextOptions,
+};
+use tantivy::{DateTime, DocSet, Index, IndexWriter, Searcher, TantivyDocument, Term, TERMINATED};
+
+const F_ID: u32 = 0;
+const F_BODY: u32 = 1;
+const F_TITLE: u32 = 2;
+const F_TAG: u32 = 3;
+const F_NUM: u32 = 4;
+const F_INUM: u32 = 5;
+const F_SCORE: u32 = 6;
+const F_WHEN: u32 = 7;
+const F_IP: u32 = 8;
+const F_FLAG: u32 = 9;
+const F_BLOB: u32 = 10;
+const F_IFAST: u32 = 11;
+const F_CAT: u32 = 12;
+const F_ATTRS: u32 = 13;
+/// model-side fast "field" of the JSON path `attrs.<JKEYS[i]>`
+const F_JSON_FAST0: u32 = 100;
+const JKEYS: [&str; 3] = ["k", "n", "t"];
+const FIELD_NAMES: [&str; 14] = ["id", "body", "title", "tag", "num", "inum", "score", "when", "ip", "flag", "blob", "ifast", "cat", "attrs"];
+
+const K_F4: &str = "C03:msm-ignored-single-should-clause";
+const K_F4M: &str = "C03:msm-ignored-single-must-clause";
+const K_S6: &str = "C03:phrase-slop3-count-vs-score-differ";
+const K_PANIC_PHRASE: &str = "C03:excluded-phrase-scorer-seek-danger-debug-assert";
+const K_IP_OVERFLOW: &str = "C03:ip-range-excluded-bound-overflow";
+const K_FZP: &str = "C03:fuzzy-prefix-forgets-improvable-prefix-match";
+const K_S6B: &str = "C03:phrase-slop3-differs-from-budget-meaning";
+
+fn fld(id: u32) -> Field {
+    Field::from_field_id(id)
+}
+
+fn build_schema() -> Schema {
+    let mut sb = Schema::builder();
+    sb.add_u64_field("id", NumericOptions::default().set_fast().set_indexed());
+    let text = |tok: &str, opt: IndexRecordOption| {
+        TextOptions::default().set_indexing_options(TextFieldIndexing::default().set_tokenizer(tok).set_index_option(opt))
+    };
+    sb.add_text_field("body", text("default", IndexRecordOption::WithFreqsAndPositions));
+    sb.add_text_field("title", text("default", IndexRecordOption::WithFreqs));
+    sb.add_text_field("tag", text("raw", IndexRecordOption::Basic));
+    sb.add_u64_field("num", NumericOptions::default().set_fast().set_indexed());
+    sb.add_i64_field("inum", NumericOptions::default().set_indexed());
+    sb.add_f64_field("score", NumericOptions::default().set_fast());
+    sb.add_date_field("when", DateOptions::default().set_fast().set_indexed());
+    sb.add_ip_addr_field("ip", IpAddrOptions::default().set_fast().set_indexed());
+    sb.add_bool_field("flag", NumericOptions::default().set_indexed());
+    sb.add_bytes_field("blob", BytesOptions::default().set_fast().set_indexed());
+    sb.add_i64_field("ifast", NumericOptions::default().set_fast().set_indexed());
+    sb.add_text_field("cat", text("raw", IndexRecordOption::Basic).set_fast(None));
+    sb.add_json_field("attrs", JsonObjectOptions::default()
+        .set_indexing_options(TextFieldIndexing::default().set_tokenizer("default").set_index_option(IndexRecordOption::WithFreqsAndPositions))
+        .set_fast(None));
+    sb.build()
+}
+
+// ---------------------------------------------------------------------------------------------
+// corpus description (serialisable: a replay case carries it)
+// ---------------------------------------------------------------------------------------------
+
+#[derive(Clone, Debug, Default, Serialize, Deserialize)]
+struct DocSpec {
+    id: u64,
+    body: Option<String>,
+    title: Option<String>,
+    tag: Option<String>,
+    num: Option<u64>,
+    inum: Option<i64>,
+    /// f64 bit pattern
+    score: Option<u64>,
+    /// seconds
+    when: Option<i64>,
+    /// u128 as decimal string
+    ip: Option<String>,
+    flag: Option<bool>,
+    blob: Option<Vec<u8>>,
+    ifast: Option<i64>,
+    #[serde(default)]
+    cat: Option<String>,
+    /// flat JSON object: (index into JKEYS, value)
+    #[serde(default)]
+    attrs: Option<Vec<(usize, JVal)>>,
+}
+
+#[derive(Clone, Debug, Serialize, Deserialize, PartialEq)]
+enum JVal {
+    Str(String),
+    Int(i64),
+    Bool(bool),
+}
+
+fn json_term(key: usize) -> Term {
+    Term::from_field_json_path(fld(F_ATTRS), JKEYS[key], false)
+}
+
+#[derive(Clone, Debug, Default, Serialize, Deserialize)]
+struct CorpusSpec {
+    docs: Vec<DocSpec>,
+    /// commit after each chunk of this many documents
+    chunks: Vec<usize>,
+    /// `tantivy::verif::set_segment_cut_docs` value while indexing (0 = off)
+    cut: u32,
+    /// (after chunk index, id): deleted by term on the id field, then committed
+    deletes: Vec<(usize, u64)>,
+    merge: bool,
+}
+
+/// the analysed view of a document (what the model receives)
+#[derive(Clone, Debug, Default)]
+struct MDoc {
+    id: u64,
+    postings: Vec<(u32, Vec<u8>, Vec<u32>)>,
+    fast: Vec<(u32, u128)>,
+}
+
+fn i64_enc(v: i64) -> u64 {
+    (v as u64) ^ (1u64 << 63)
+}
+fn f64_enc(bits: u64) -> u64 {
+    if bits >> 63 == 0 { bits ^ (1u64 << 63) } else { !bits }
+}
+fn date_enc(secs: i64) -> u64 {
+    i64_enc(secs.wrapping_mul(1_000_000_000))
+}
+
+#[derive(Clone, Debug, Serialize, Deserialize, PartialEq)]
+enum Val {
+    Str(String),
+    U64(u64),
+    I64(i64),
+    F64(u64),
+    Date(i64),
+    Ip(String),
+    Bool(bool),
+    Bytes(Vec<u8>),
+    /// a token of a string value under a JSON path
+    JStr(usize, String),
+    /// an integer under a JSON path
+    JInt(usize, i64),
+}
+
+#[derive(Clone, Debug, Serialize, Deserialize, PartialEq)]
+struct TermS {
+    f: u32,
+    v: Val,
+}
+
+impl TermS {
+    fn term(&self) -> Term {
+        let f = fld(self.f);
+        match &self.v {
+            Val::Str(s) => Term::from_field_text(f, s),
+            Val::U64(v) => Term::from_field_u64(f, *v),
+            Val::I64(v) => Term::from_field_i64(f, *v),
+            Val::F64(b) => Term::from_field_f64(f, f64::from_bits(*b)),
+            Val::Date(s) => Term::from_field_date_for_search(f, DateTime::from_timestamp_secs(*s)),
+            Val::Ip(s) => Term::from_field_ip_addr(f, Ipv6Addr::from(s.parse::<u128>().unwrap())),
+            Val::Bool(b) => Term::from_field_bool(f, *b),
+            Val::Bytes(b) => Term::from_field_bytes(f, b),
+            Val::JStr(k, s) => { let mut t = json_term(*k); t.append_type_and_str(s); t }
+            Val::JInt(k, v) => { let mut t = json_term(*k); t.append_type_and_fast_value(*v); t }
+        }
+    }
+    fn bytes(&self) -> Vec<u8> {
+        self.term().serialized_value_bytes().to_vec()
+    }
+    /// order-preserving encoding computed natively (not through tantivy)
+    fn enc(&self) -> u128 {
+        match &self.v {
+            Val::U64(v) => *v as u128,
+            Val::I64(v) => i64_enc(*v) as u128,
+            Val::F64(b) => f64_enc(*b) as u128,
+            Val::Date(s) => date_enc(*s) as u128,
+            Val::Ip(s) => s.parse::<u128>().unwrap(),
+            Val::Bool(b) => *b as u128,
+            Val::JInt(_, v) => i64_enc(*v) as u128,
+            Val::Str(_) | Val::Bytes(_) | Val::JStr(..) => 0,
+        }
+    }
+    /// expected term bytes: big-endian of the encoding (numeric types)
+    fn expected_bytes(&self) -> Option<Vec<u8>> {
+        match &self.v {
+            Val::Ip(_) => Some(self.enc().to_be_bytes().to_vec()),
+            Val::U64(_) | Val::I64(_) | Val::F64(_) | Val::Date(_) | Val::Bool(_) => Some((self.enc() as u64).to_be_bytes().to_vec()),
+            Val::Str(s) => Some(s.as_bytes().to_vec()),
+            Val::Bytes(b) => Some(b.clone()),
+            Val::JStr(..) | Val::JInt(..) => None,
+        }
+    }
+}
+
+fn analyse(index: &Index, d: &DocSpec) -> MDoc {
+    let mut m = MDoc { id: d.id, ..Default::default() };
+    let mut text = |f: u32, s: &Option<String>| {
+        if let Some(s) = s {
+            let mut an = index.tokenizer_for_field(fld(f)).unwrap();
+            let mut st = an.token_stream(s);
+            let mut by_term: BTreeMap<Vec<u8>, Vec<u32>> = BTreeMap::new();
+            while st.advance() {
+                let t = st.token();
+                by_term.entry(t.text.as_bytes().to_vec()).or_default().push(t.position as u32);
+            }
+            for (t, ps) in by_term {
+                m.postings.push((f, t, ps));
+            }
+        }
+    };
+    text(F_BODY, &d.body);
+    text(F_TITLE, &d.title);
+    text(F_TAG, &d.tag);
+    text(F_CAT, &d.cat);
+    if d.cat.is_some() {
+        m.fast.push((F_CAT, 0));
+    }
+    let mut val = |f: u32, v: Val, indexed: bool, fast: bool| {
+        let t = TermS { f, v };
+        if indexed {
+            m.postings.push((f, t.bytes(), vec![0]));
+        }
+        if fast {
+            m.fast.push((f, t.enc()));
+        }
+    };
+    val(F_ID, Val::U64(d.id), true, true);
+    if let Some(v) = d.num { val(F_NUM, Val::U64(v), true, true); }
+    if let Some(v) = d.inum { val(F_INUM, Val::I64(v), true, false); }
+    if let Some(v) = d.score { val(F_SCORE, Val::F64(v), false, true); }
+    if let Some(v) = d.when { val(F_WHEN, Val::Date(v), true, true); }
+    if let Some(v) = &d.ip { val(F_IP, Val::Ip(v.clone()), true, true); }
+    if let Some(v) = d.flag { val(F_FLAG, Val::Bool(v), true, false); }
+    if let Some(v) = &d.blob { val(F_BLOB, Val::Bytes(v.clone()), true, true); }
+    if let Some(v) = d.ifast { val(F_IFAST, Val::I64(v), true, true); }
+    if let Some(attrs) = &d.attrs {
+        for (k, v) in attrs {
+            match v {
+                JVal::Str(sv) => {
+                    let mut an = index.tokenizer_for_field(fld(F_ATTRS)).unwrap();
+                    let mut st = an.token_stream(sv);
+                    let mut by_term: BTreeMap<Vec<u8>, Vec<u32>> = BTreeMap::new();
+                    while st.advance() {
+                        let t = st.token();
+                        let term = TermS { f: F_ATTRS, v: Val::JStr(*k, t.text.clone()) };
+                        by_term.entry(term.bytes()).or_default().push(t.position as u32);
+                    }
+                    for (t, ps) in by_term {
+                        m.postings.push((F_ATTRS, t, ps));
+                    }
+                    m.fast.push((F_JSON_FAST0 + *k as u32, 0));
+                }
+                JVal::Int(i) => {
+                    let term = TermS { f: F_ATTRS, v: Val::JInt(*k, *i) };
+                    m.postings.push((F_ATTRS, term.bytes(), vec![0]));
+                    m.fast.push((F_JSON_FAST0 + *k as u32, term.enc()));
+                }
+                JVal::Bool(bv) => {
+                    let mut t = json_term(*k);
+                    t.append_type_and_fast_value(*bv);
+                    m.postings.push((F_ATTRS, t.serialized_value_bytes().to_vec(), vec![0]));
+                    m.fast.push((F_JSON_FAST0 + *k as u32, *bv as u128));
+                }
+            }
+        }
+    }
+    m
+}
+
+fn to_tantivy_doc(d: &DocSpec) -> TantivyDocument {
+    let mut t = TantivyDocument::default();
+    t.add_u64(fld(F_ID), d.id);
+    if let Some(s) = &d.body { t.add_text(fld(F_BODY), s); }
+    if let Some(s) = &d.title { t.add_text(fld(F_TITLE), s); }
+    if let Some(s) = &d.tag { t.add_text(fld(F_TAG), s); }
+    if let Some(v) = d.num { t.add_u64(fld(F_NUM), v); }
+    if let Some(v) = d.inum { t.add_i64(fld(F_INUM), v); }
+    if let Some(v) = d.score { t.add_f64(fld(F_SCORE), f64::from_bits(v)); }
+    if let Some(v) = d.when { t.add_date(fld(F_WHEN), DateTime::from_timestamp_secs(v)); }
+    if let Some(v) = &d.ip { t.add_ip_addr(fld(F_IP), Ipv6Addr::from(v.parse::<u128>().unwrap())); }
+    if let Some(v) = d.flag { t.add_bool(fld(F_FLAG), v); }
+    if let Some(v) = &d.blob { t.add_bytes(fld(F_BLOB), v); }
+    if let Some(v) = d.ifast { t.add_i64(fld(F_IFAST), v); }
+    if let Some(s) = &d.cat { t.add_text(fld(F_CAT), s); }
+    if let Some(attrs) = &d.attrs {
+        let obj: std::collections::BTreeMap<String, OwnedValue> = attrs.iter().map(|(k, v)| (JKEYS[*k].to_string(), match v {
+            JVal::Str(s) => OwnedValue::Str(s.clone()),
+            JVal::Int(i) => OwnedValue::I64(*i),
+            JVal::Bool(b) => OwnedValue::Bool(*b),
+        })).collect();
+        t.add_object(fld(F_ATTRS), obj);
+    }
+    t
+}
+
+struct Built {
+    index: Index,
+    searcher: Searcher,
+    /// per segment (searcher order): (analysed doc, alive) by segment doc id
+    segs: Vec<Vec<(MDoc, bool)>>,
+    by_id: HashMap<u64, MDoc>,
+    expected_live: BTreeSet<u64>,
+}
+
+fn build(spec: &CorpusSpec) -> Result<Built, String> {
+    let index = Index::create_in_ram(build_schema());
+    let mut w: IndexWriter = index.writer_with_num_threads(1, 20_000_000).map_err(|e| e.to_string())?;
+    w.set_merge_policy(Box::new(NoMergePolicy));
+    tantivy::verif::set_segment_cut_docs(spec.cut);
+    let mut live: BTreeSet<u64> = BTreeSet::new();
+    let mut pos = 0usize;
+    let res = (|| -> tantivy::Result<()> {
+        for (ci, n) in spec.chunks.iter().enumerate() {
+            for d in &spec.docs[pos..(pos + n).min(spec.docs.len())] {
+                w.add_document(to_tantivy_doc(d))?;
+                live.insert(d.id);
+            }
+            pos = (pos + n).min(spec.docs.len());
+            w.commit()?;
+            let dels: Vec<u64> = spec.deletes.iter().filter(|(c, _)| *c == ci).map(|(_, id)| *id).collect();
+            if !dels.is_empty() {
+                for id in dels {
+                    w.delete_term(Term::from_field_u64(fld(F_ID), id));
+                    live.remove(&id);
+                }
+                w.commit()?;
+            }
+        }
+        Ok(())
+    })();
+    tantivy::verif::set_segment_cut_docs(0);
+    res.map_err(|e| e.to_string())?;
+    if spec.merge {
+        let ids = index.searchable_segment_ids().map_err(|e| e.to_string())?;
+        if ids.len() >= 2 {
+            w.merge(&ids).wait().map_err(|e| e.to_string())?;
+        }
+    }
+    w.wait_merging_threads().map_err(|e| e.to_string())?;
+    let reader = index.reader().map_err(|e| e.to_string())?;
+    let searcher = reader.searcher();
+    let by_id: HashMap<u64, MDoc> = spec.docs.iter().map(|d| (d.id, analyse(&index, d))).collect();
+    let mut segs = vec![];
+    for r in searcher.segment_readers() {
+        let col = r.fast_fields().u64("id").map_err(|e| e.to_string())?;
+        let mut v = vec![];
+        for doc in 0..r.max_doc() {
+            let id = col.first(doc).ok_or("doc without id")?;
+            v.push((by_id.get(&id).ok_or("unknown id in segment")?.clone(), !r.is_deleted(doc)));
+        }
+        segs.push(v);
+    }
+    Ok(Built { index, searcher, segs, by_id, expected_live: live })
+}
+
+fn hexs(b: &[u8]) -> String {
+    crate::model::hex(b)
+}
+
+fn corpus_line(b: &Built) -> String {
+    if b.segs.is_empty() {
+        return "-".into();
+    }
+    let mut s = String::new();
+    for (si, seg) in b.segs.iter().enumerate() {
+        if si > 0 { s.push('/'); }
+        for (di, (d, alive)) in seg.iter().enumerate() {
+            if di > 0 { s.push(';'); }
+            s.push_str(&format!("{}|{}|", d.id, if *alive { 1 } else { 0 }));
+            if d.postings.is_empty() { s.push('-'); }
+            for (i, (f, t, ps)) in d.postings.iter().enumerate() {
+                if i > 0 { s.push(','); }
+                let p: Vec<String> = ps.iter().map(|x| x.to_string()).collect();
+                s.push_str(&format!("{}:{}:{}", f, hexs(t), if p.is_empty() { "-".to_string() } else { p.join(".") }));
+            }
+            s.push('|');
+            if d.fast.is_empty() { s.push('-'); }
+            for (i, (f, v)) in d.fast.iter().enumerate() {
+                if i > 0 { s.push(','); }
+                s.push_str(&format!("{}:{}", f, v));
+            }
+        }
+    }
+    s
+}
+
+// ---------------------------------------------------------------------------------------------
+// queries
+// ---------------------------------------------------------------------------------------------
+
+#[derive(Clone, Debug, Serialize, Deserialize, PartialEq)]
+enum Re {
+    Lit(char),
+    Any,
+    Class(Vec<char>),
+    Seq(Vec<Re>),
+    Alt(Vec<Re>),
+    Star(Box<Re>),
+    Plus(Box<Re>),
+    Opt(Box<Re>),
+}
+
+impl Re {
+    fn render(&self) -> String {
+        match self {
+            Re::Lit(c) => c.to_string(),
+            Re::Any => ".".into(),
+            Re::Class(cs) => format!("[{}]", cs.iter().collect::<String>()),
+            Re::Seq(v) => v.iter().map(|r| r.render()).collect(),
+            Re::Alt(v) => format!("({})", v.iter().map(|r| r.render()).collect::<Vec<_>>().join("|")),
+            Re::Star(r) => format!("({})*", r.render()),
+            Re::Plus(r) => format!("({})+", r.render()),
+            Re::Opt(r) => format!("({})?", r.render()),
+        }
+    }
+    /// own backtracking matcher (independent of the regex / fst crates): does `self` followed by
+    /// continuation `k` match `s`?
+    fn m(&self, s: &[char], k: &dyn Fn(&[char]) -> bool) -> bool {
+        match self {
+            Re::Lit(c) => !s.is_empty() && s[0] == *c && k(&s[1..]),
+            Re::Any => !s.is_empty() && s[0] != '\n' && k(&s[1..]),
+            Re::Class(cs) => !s.is_empty() && cs.contains(&s[0]) && k(&s[1..]),
+            Re::Seq(v) => match v.split_first() {
+                None => k(s),
+                Some((h, t)) => h.m(s, &|r| Re::Seq(t.to_vec()).m(r, k)),
+            },
+            Re::Alt(v) => v.iter().any(|r| r.m(s, k)),
+            Re::Opt(r) => r.m(s, k) || k(s),
+            Re::Star(r) => k(s) || r.m(s, &|rest| rest.len() < s.len() && self.m(rest, k)),
+            Re::Plus(r) => r.m(s, &|rest| Re::Star(r.clone()).m(rest, k)),
+        }
+    }
+    fn full_match(&self, s: &str) -> bool {
+        let cs: Vec<char> = s.chars().collect();
+        self.m(&cs, &|r| r.is_empty())
+    }
+}
+
+#[derive(Clone, Debug, Serialize, Deserialize, PartialEq)]
+enum Bd {
+    Incl(TermS),
+    Excl(TermS),
+    Unb,
+}
+
+#[derive(Clone, Copy, Debug, Serialize, Deserialize, PartialEq)]
+enum Oc {
+    Must,
+    Should,
+    MustNot,
+}
+
+#[derive(Clone, Debug, Serialize, Deserialize, PartialEq)]
+enum Q {
+    Term(TermS),
+    Phrase { f: u32, terms: Vec<(usize, String)>, slop: u32 },
+    /// phrase over the tokens of the string under JSON path `attrs.k`
+    JPhrase { terms: Vec<(usize, String)>, slop: u32 },
+    /// exists on `attrs.<key>` (None: on `attrs` with json_subpaths)
+    JExists(Option<usize>),
+    /// range over the integers under JSON path `attrs.n` (fast-field path)
+    JRange { lo: Option<(bool, i64)>, hi: Option<(bool, i64)> },
+    PhrasePrefix { f: u32, terms: Vec<(usize, String)> },
+    /// `fast`: RangeQuery on a fast field (fast-field path); else the term-dictionary path
+    /// (`RangeQuery` on a non-fast field, or `InvertedIndexRangeQuery` when `inverted`)
+    Range { f: u32, lo: Bd, hi: Bd, fast: bool, inverted: bool },
+    TermSet(Vec<TermS>),
+    Exists(u32),
+    All,
+    Empty,
+    Fuzzy { t: TermS, d: u8, transp: bool, prefix: bool },
+    Regex { f: u32, re: Re },
+    Boost(Box<Q>),
+    Const(Box<Q>),
+    DisMax(Vec<Q>),
+    /// msm None = `BooleanQuery::new`
+    Bool(Vec<(Oc, Q)>, Option<usize>),
+}
+
+fn derived_msm(cs: &[(Oc, Q)]) -> usize {
+    // mirrors BooleanQuery::new
+    let mut m = 0;
+    for (o, _) in cs {
+        match o {
+            Oc::Should => m = 1,
+            _ => { m = 0; break; }
+        }
+    }
+    m
+}
+
+fn bound_of(b: &Bd) -> Bound<Term> {
+    match b {
+        Bd::Incl(t) => Bound::Included(t.term()),
+        Bd::Excl(t) => Bound::Excluded(t.term()),
+        Bd::Unb => Bound::Unbounded,
+    }
+}
+
+impl Q {
+    fn real(&self) -> Box<dyn Query> {
+        match self {
+            Q::Term(t) => {
+                let opt = match t.f { F_BODY | F_ATTRS => IndexRecordOption::WithFreqsAndPositions, F_TITLE => IndexRecordOption::WithFreqs, _ => IndexRecordOption::Basic };
+                Box::new(TermQuery::new(t.term(), opt))
+            }
+            Q::Phrase { f, terms, slop } => Box::new(PhraseQuery::new_with_offset_and_slop(
+                terms.iter().map(|(o, s)| (*o, Term::from_field_text(fld(*f), s))).collect(), *slop)),
+            Q::JPhrase { terms, slop } => Box::new(PhraseQuery::new_with_offset_and_slop(
+                terms.iter().map(|(o, s)| (*o, TermS { f: F_ATTRS, v: Val::JStr(0, s.clone()) }.term())).collect(), *slop)),
+            Q::JExists(k) => match k {
+                Some(k) => Box::new(ExistsQuery::new(format!("attrs.{}", JKEYS[*k]), false)),
+                None => Box::new(ExistsQuery::new("attrs".to_string(), true)),
+            },
+            Q::JRange { lo, hi } => {
+                let b = |x: &Option<(bool, i64)>| match x {
+                    None => Bound::Unbounded,
+                    Some((true, v)) => Bound::Included(TermS { f: F_ATTRS, v: Val::JInt(1, *v) }.term()),
+                    Some((false, v)) => Bound::Excluded(TermS { f: F_ATTRS, v: Val::JInt(1, *v) }.term()),
+                };
+                Box::new(RangeQuery::new(b(lo), b(hi)))
+            }
+            Q::PhrasePrefix { f, terms } => {
+                let mut q = PhrasePrefixQuery::new_with_offset(terms.iter().map(|(o, s)| (*o, Term::from_field_text(fld(*f), s))).collect());
+                q.set_max_expansions(100_000);
+                Box::new(q)
+            }
+            Q::Range { lo, hi, inverted, .. } => {
+                if *inverted { Box::new(InvertedIndexRangeQuery::new(bound_of(lo), bound_of(hi))) }
+                else { Box::new(RangeQuery::new(bound_of(lo), bound_of(hi))) }
+            }
+            Q::TermSet(ts) => Box::new(TermSetQuery::new(ts.iter().map(|t| t.term()))),
+            Q::Exists(f) => Box::new(ExistsQuery::new(FIELD_NAMES[*f as usize].to_string(), false)),
+            Q::All => Box::new(AllQuery),
+            Q::Empty => Box::new(EmptyQuery),
+            Q::Fuzzy { t, d, transp, prefix } => {
+                if *prefix { Box::new(FuzzyTermQuery::new_prefix(t.term(), *d, *transp)) } else { Box::new(FuzzyTermQuery::new(t.term(), *d, *transp)) }
+            }
+            Q::Regex { f, re } => Box::new(RegexQuery::from_pattern(&re.render(), fld(*f)).expect("generated regex must parse")),
+            Q::Boost(q) => Box::new(BoostQuery::new(q.real(), 2.0)),
+            Q::Const(q) => Box::new(ConstScoreQuery::new(q.real(), 3.0)),
+            Q::DisMax(qs) => Box::new(DisjunctionMaxQuery::new(qs.iter().map(|q| q.real()).collect())),
+            Q::Bool(cs, msm) => {
+                let sub: Vec<(Occur, Box<dyn Query>)> = cs.iter().map(|(o, q)| (match o { Oc::Must => Occur::Must, Oc::Should => Occur::Should, Oc::MustNot => Occur::MustNot }, q.real())).collect();
+                match msm {
+                    None => Box::new(BooleanQuery::new(sub)),
+                    Some(m) => Box::new(BooleanQuery::with_minimum_required_clauses(sub, *m)),
+                }
+            }
+        }
+    }
+
+    /// model encoding (prefix form, atoms joined by ':'); `vocab` = distinct terms per field
+    fn enc(&self, vocab: &HashMap<u32, BTreeSet<Vec<u8>>>, out: &mut Vec<String>) {
+        let pairs = |terms: &Vec<(usize, String)>, out: &mut Vec<String>| {
+            for (o, s) in terms {
+                out.push(o.to_string());
+                out.push(hexs(s.as_bytes()));
+            }
+        };
+        match self {
+            Q::Term(t) => out.extend(["T".into(), t.f.to_string(), hexs(&t.bytes())]),
+            Q::Phrase { f, terms, slop } => {
+                let mut ts = terms.clone();
+                ts.sort_by_key(|x| x.0);
+                out.extend(["P".into(), f.to_string(), slop.to_string(), ts.len().to_string()]);
+                pairs(&ts, out);
+            }
+            Q::JPhrase { terms, slop } => {
+                let mut ts = terms.clone();
+                ts.sort_by_key(|x| x.0);
+                out.extend(["P".into(), F_ATTRS.to_string(), slop.to_string(), ts.len().to_string()]);
+                for (o, s) in &ts {
+                    out.push(o.to_string());
+                    out.push(hexs(&TermS { f: F_ATTRS, v: Val::JStr(0, s.clone()) }.bytes()));
+                }
+            }
+            Q::JExists(k) => match k {
+                Some(k) => out.extend(["E".into(), (F_JSON_FAST0 + *k as u32).to_string()]),
+                None => {
+                    out.extend(["D".into(), JKEYS.len().to_string()]);
+                    for k in 0..JKEYS.len() {
+                        out.extend(["E".into(), (F_JSON_FAST0 + k as u32).to_string()]);
+                    }
+                }
+            },
+            Q::JRange { lo, hi } => {
+                out.extend(["RF".into(), (F_JSON_FAST0 + 1).to_string()]);
+                for b in [lo, hi] {
+                    match b {
+                        None => out.extend(["u".into(), "-".into()]),
+                        Some((incl, v)) => out.extend([if *incl { "i".to_string() } else { "e".to_string() }, i64_enc(*v).to_string()]),
+                    }
+                }
+            }
+            Q::PhrasePrefix { f, terms } => {
+                let mut ts = terms.clone();
+                ts.sort_by_key(|x| x.0);
+                let (po, pre) = ts.pop().unwrap();
+                out.extend(["PP".into(), f.to_string(), ts.len().to_string()]);
+                pairs(&ts, out);
+                out.extend([po.to_string(), hexs(pre.as_bytes())]);
+            }
+            Q::Range { f, lo, hi, fast, .. } => {
+                out.extend([if *fast { "RF".to_string() } else { "RT".to_string() }, f.to_string()]);
+                for b in [lo, hi] {
+                    match b {
+                        Bd::Unb => out.extend(["u".into(), "-".into()]),
+                        Bd::Incl(t) | Bd::Excl(t) => {
+                            out.push(if matches!(b, Bd::Incl(_)) { "i".into() } else { "e".into() });
+                            out.push(if *fast { t.enc().to_string() } else { hexs(&t.bytes()) });
+                        }
+                    }
+                }
+            }
+            Q::TermSet(ts) => {
+                out.extend(["S".into(), ts.len().to_string()]);
+                for t in ts {
+                    out.extend([t.f.to_string(), hexs(&t.bytes())]);
+                }
+            }
+            Q::Exists(f) => out.extend(["E".into(), f.to_string()]),
+            Q::All => out.push("A".into()),
+            Q::Empty => out.push("N".into()),
+            Q::Fuzzy { t, d, transp, prefix } => out.extend(["F".into(), t.f.to_string(), hexs(&t.bytes()), d.to_string(), (*transp as u8).to_string(), (*prefix as u8).to_string()]),
+            Q::Regex { f, re } => {
+                // the language is a parameter of the model: decided by the harness's own matcher
+                let lang: Vec<&Vec<u8>> = vocab.get(f).map(|v| v.iter().filter(|t| std::str::from_utf8(t).map(|s| re.full_match(s)).unwrap_or(false)).collect()).unwrap_or_default();
+                out.extend(["X".into(), f.to_string(), lang.len().to_string()]);
+                for t in lang {
+                    out.push(hexs(t));
+                }
+            }
+            Q::Boost(q) => { out.push("W".into()); q.enc(vocab, out); }
+            Q::Const(q) => { out.push("K".into()); q.enc(vocab, out); }
+            Q::DisMax(qs) => {
+                out.extend(["D".into(), qs.len().to_string()]);
+                for q in qs { q.enc(vocab, out); }
+            }
+            Q::Bool(cs, msm) => {
+                out.extend(["L".into(), msm.unwrap_or_else(|| derived_msm(cs)).to_string(), cs.len().to_string()]);
+                for (o, q) in cs {
+                    out.push(match o { Oc::Must => "m", Oc::Should => "s", Oc::MustNot => "n" }.into());
+                    q.enc(vocab, out);
+                }
+            }
+        }
+    }
+    fn model_str(&self, vocab: &HashMap<u32, BTreeSet<Vec<u8>>>) -> String {
+        let mut v = vec![];
+        self.enc(vocab, &mut v);
+        v.join(":")
+    }
+    fn leaves(&self, out: &mut Vec<Q>) {
+        match self {
+            Q::Boost(q) | Q::Const(q) => q.leaves(out),
+            Q::DisMax(qs) => qs.iter().for_each(|q| q.leaves(out)),
+            Q::Bool(cs, _) => cs.iter().for_each(|(_, q)| q.leaves(out)),
+            l => out.push(l.clone()),
+        }
+    }
+    fn depth(&self) -> usize {
+        match self {
+            Q::Boost(q) | Q::Const(q) => 1 + q.depth(),
+            Q::DisMax(qs) => 1 + qs.iter().map(|q| q.depth()).max().unwrap_or(0),
+            Q::Bool(cs, _) => 1 + cs.iter().map(|(_, q)| q.depth()).max().unwrap_or(0),
+            _ => 0,
+        }
+    }
+    fn any(&self, p: &dyn Fn(&Q) -> bool) -> bool {
+        if p(self) { return true; }
+        match self {
+            Q::Boost(q) | Q::Const(q) => q.any(p),
+            Q::DisMax(qs) => qs.iter().any(|q| q.any(p)),
+            Q::Bool(cs, _) => cs.iter().any(|(_, q)| q.any(p)),
+            _ => false,
+        }
+    }
+    /// F4 signature: a boolean node with exactly one clause, SHOULD, msm ≥ 2
+    fn sig_f4(&self) -> bool {
+        self.any(&|q| matches!(q, Q::Bool(cs, Some(m)) if cs.len() == 1 && cs[0].0 == Oc::Should && *m >= 2))
+    }
+    /// same shortcut, other face: exactly one clause, MUST, msm ≥ 1
+    fn sig_f4m(&self) -> bool {
+        self.any(&|q| matches!(q, Q::Bool(cs, Some(m)) if cs.len() == 1 && cs[0].0 == Oc::Must && *m >= 1))
+    }
+    /// a phrase (or phrase-prefix) somewhere below a MUST_NOT clause
+    fn sig_excluded_phrase(&self) -> bool {
+        self.any(&|q| matches!(q, Q::Bool(cs, _) if cs.iter().any(|(o, sub)| *o == Oc::MustNot && sub.any(&|x| matches!(x, Q::Phrase { .. } | Q::JPhrase { .. } | Q::PhrasePrefix { .. })))))
+    }
+    /// an ip fast-field range whose exclusive upper bound is :: (0) or whose exclusive lower
+    /// bound is ffff:…:ffff (u128::MAX)
+    fn sig_ip_overflow(&self) -> bool {
+        let is = |b: &Bd, v: u128| matches!(b, Bd::Excl(TermS { v: Val::Ip(s), .. }) if s.parse::<u128>().ok() == Some(v));
+        self.any(&|q| matches!(q, Q::Range { f, lo, hi, fast: true, .. } if *f == F_IP && (is(hi, 0) || is(lo, u128::MAX))))
+    }
+    /// a fuzzy query in prefix mode
+    fn sig_fzp(&self) -> bool {
+        self.any(&|q| matches!(q, Q::Fuzzy { prefix: true, .. }))
+    }
+    /// S6 signature: a phrase of ≥ 3 terms with slop ≥ 1
+    fn sig_s6(&self) -> bool {
+        self.any(&|q| matches!(q, Q::Phrase { terms, slop, .. } | Q::JPhrase { terms, slop } if terms.len() >= 3 && *slop >= 1))
+    }
+    fn kinds(&self, out: &mut BTreeSet<String>) {
+        let k = match self {
+            Q::Term(t) => format!("term:{}{}", FIELD_NAMES[t.f as usize], match &t.v { Val::JStr(..) => ":str", Val::JInt(..) => ":int", _ => "" }),
+            Q::Phrase { terms, slop, .. } => format!("phrase:{}terms:slop{}", terms.len().min(4), (*slop).min(3)),
+            Q::JPhrase { terms, slop } => format!("json-phrase:{}terms:slop{}", terms.len().min(4), (*slop).min(3)),
+            Q::JExists(k) => format!("json-exists:{}", if k.is_some() { "path" } else { "subpaths" }),
+            Q::JRange { .. } => "json-range:fast".into(),
+            Q::PhrasePrefix { terms, .. } => format!("phrase-prefix:{}", terms.len().min(3)),
+            Q::Range { f, fast, inverted, .. } => format!("range:{}:{}", FIELD_NAMES[*f as usize], if *fast { "fast" } else if *inverted { "inverted" } else if *f == F_CAT { "str-fast" } else { "termdict" }),
+            Q::TermSet(_) => "term-set".into(),
+            Q::Exists(f) => format!("exists:{}", FIELD_NAMES[*f as usize]),
+            Q::All => "all".into(),
+            Q::Empty => "empty".into(),
+            Q::Fuzzy { d, transp, prefix, .. } => format!("fuzzy:d{}:t{}:p{}", d, *transp as u8, *prefix as u8),
+            Q::Regex { .. } => "regex".into(),
+            Q::Boost(_) => "boost".into(),
+            Q::Const(_) => "const-score".into(),
+            Q::DisMax(_) => "dis-max".into(),
+            Q::Bool(cs, msm) => {
+                let only_not = !cs.is_empty() && cs.iter().all(|c| c.0 == Oc::MustNot);
+                format!("bool:{}{}{}", if cs.is_empty() { "empty" } else if only_not { "only-must-not" } else { "mixed" }, if msm.is_some() { ":msm" } else { "" }, if cs.len() == 1 { ":single" } else { "" })
+            }
+        };
+        out.insert(k);
+        match self {
+            Q::Boost(q) | Q::Const(q) => q.kinds(out),
+            Q::DisMax(qs) => qs.iter().for_each(|q| q.kinds(out)),
+            Q::Bool(cs, _) => cs.iter().for_each(|(_, q)| q.kinds(out)),
+            _ => {}
+        }
+    }
+}
+
+// ---------------------------------------------------------------------------------------------
+// native evaluator (second, independent evaluation of the spec)
+// ---------------------------------------------------------------------------------------------
+
+fn positions<'a>(d: &'a MDoc, f: u32, t: &[u8]) -> &'a [u32] {
+    d.postings.iter().find(|p| p.0 == f && p.1 == t).map(|p| &p.2[..]).unwrap_or(&[])
+}
+
+fn has_term(d: &MDoc, f: u32, t: &[u8]) -> bool {
+    d.postings.iter().any(|p| p.0 == f && p.1 == t)
+}
+
+fn adjusted(d: &MDoc, f: u32, terms: &[(usize, String)], mx: usize) -> Vec<Vec<u64>> {
+    terms.iter().map(|(o, s)| {
+        let bytes = if f == F_ATTRS { TermS { f, v: Val::JStr(0, s.clone()) }.bytes() } else { s.as_bytes().to_vec() };
+        positions(d, f, &bytes).iter().map(|p| *p as u64 + (mx - o) as u64).collect()
+    }).collect()
+}
+
+fn slop_chain(prev: u64, budget: u64, rest: &[Vec<u64>]) -> bool {
+    match rest.split_first() {
+        None => true,
+        Some((a, r)) => a.iter().any(|p| {
+            let d = prev.abs_diff(*p);
+            d <= budget && slop_chain(*p, budget - d, r)
+        }),
+    }
+}
+
+fn edit_distance(c: &[char], q: &[char], transp: bool, prefix: bool) -> usize {
+    // D[i][j] = distance(c[..i], q[..j])  (optimal string alignment when transp)
+    let (n, m) = (c.len(), q.len());
+    let mut d = vec![vec![0usize; m + 1]; n + 1];
+    for j in 0..=m { d[0][j] = j; }
+    for i in 1..=n {
+        d[i][0] = i;
+        for j in 1..=m {
+            let cost = if c[i - 1] == q[j - 1] { 0 } else { 1 };
+            let mut v = (d[i - 1][j - 1] + cost).min(d[i - 1][j] + 1).min(d[i][j - 1] + 1);
+            if transp && i > 1 && j > 1 && c[i - 1] == q[j - 2] && c[i - 2] == q[j - 1] {
+                v = v.min(d[i - 2][j - 2] + 1);
+            }
+            d[i][j] = v;
+        }
+    }
+    if prefix { (0..=n).map(|i| d[i][m]).min().unwrap() } else { d[n][m] }
+}
+
+fn in_range_bytes(lo: &Bd, hi: &Bd, x: &[u8]) -> bool {
+    (match lo { Bd::Incl(b) => x >= &b.bytes()[..], Bd::Excl(b) => x > &b.bytes()[..], Bd::Unb => true })
+        && (match hi { Bd::Incl(b) => x <= &b.bytes()[..], Bd::Excl(b) => x < &b.bytes()[..], Bd::Unb => true })
+}
+
+fn in_range_enc(lo: &Bd, hi: &Bd, x: u128) -> bool {
+    (match lo { Bd::Incl(b) => x >= b.enc(), Bd::Excl(b) => x > b.enc(), Bd::Unb => true })
+        && (match hi { Bd::Incl(b) => x <= b.enc(), Bd::Excl(b) => x < b.enc(), Bd::Unb => true })
+}
+
+fn eval(q: &Q, d: &MDoc) -> bool {
+    match q {
+        Q::Term(t) => has_term(d, t.f, &t.bytes()),
+        Q::Phrase { f, terms, slop } => {
+            let mut ts = terms.clone();
+            ts.sort_by_key(|x| x.0);
+            let mx = ts.iter().map(|x| x.0).max().unwrap_or(0);
+            let adj = adjusted(d, *f, &ts, mx);
+            if *slop == 0 {
+                adj[0].iter().any(|p| adj[1..].iter().all(|a| a.contains(p)))
+            } else {
+                adj[0].iter().any(|p| slop_chain(*p, *slop as u64, &adj[1..]))
+            }
+        }
+        Q::JPhrase { terms, slop } => eval(&Q::Phrase { f: F_ATTRS, terms: terms.clone(), slop: *slop }, d),
+        Q::JExists(k) => d.fast.iter().any(|(g, _)| match k { Some(k) => *g == F_JSON_FAST0 + *k as u32, None => *g >= F_JSON_FAST0 }),
+        Q::JRange { lo, hi } => d.fast.iter().any(|(g, v)| *g == F_JSON_FAST0 + 1
+            && lo.map(|(incl, b)| if incl { *v >= i64_enc(b) as u128 } else { *v > i64_enc(b) as u128 }).unwrap_or(true)
+            && hi.map(|(incl, b)| if incl { *v <= i64_enc(b) as u128 } else { *v < i64_enc(b) as u128 }).unwrap_or(true)),
+        Q::PhrasePrefix { f, terms } => {
+            let mut ts = terms.clone();
+            ts.sort_by_key(|x| x.0);
+            let (po, pre) = ts.pop().unwrap();
+            let mx = ts.iter().map(|x| x.0).max().unwrap_or(0).max(po);
+            let adj = adjusted(d, *f, &ts, mx);
+            let suffix: Vec<u64> = d.postings.iter().filter(|p| p.0 == *f && p.1.starts_with(pre.as_bytes())).flat_map(|p| p.2.iter().map(|x| *x as u64 + (mx - po) as u64)).collect();
+            if adj.is_empty() { !suffix.is_empty() } else { suffix.iter().any(|p| adj.iter().all(|a| a.contains(p))) }
+        }
+        Q::Range { f, lo, hi, fast, .. } => {
+            if *fast { d.fast.iter().any(|(g, v)| g == f && in_range_enc(lo, hi, *v)) }
+            else { d.postings.iter().any(|p| p.0 == *f && in_range_bytes(lo, hi, &p.1)) }
+        }
+        Q::TermSet(ts) => ts.iter().any(|t| has_term(d, t.f, &t.bytes())),
+        Q::Exists(f) => d.fast.iter().any(|(g, _)| g == f),
+        Q::All => true,
+        Q::Empty => false,
+        Q::Fuzzy { t, d: dist, transp, prefix } => {
+            let q: Vec<char> = match &t.v { Val::Str(s) => s.chars().collect(), _ => vec![] };
+            d.postings.iter().any(|p| p.0 == t.f && std::str::from_utf8(&p.1).map(|s| edit_distance(&s.chars().collect::<Vec<_>>(), &q, *transp, *prefix) <= *dist as usize).unwrap_or(false))
+        }
+        Q::Regex { f, re } => d.postings.iter().any(|p| p.0 == *f && std::str::from_utf8(&p.1).map(|s| re.full_match(s)).unwrap_or(false)),
+        Q::Boost(q) | Q::Const(q) => eval(q, d),
+        Q::DisMax(qs) => qs.iter().any(|q| eval(q, d)),
+        Q::Bool(cs, msm) => {
+            let msm = msm.unwrap_or_else(|| derived_msm(cs));
+            let n_must = cs.iter().filter(|c| c.0 == Oc::Must).count();
+            let n_should = cs.iter().filter(|c| c.0 == Oc::Should).count();
+            if n_must == 0 && n_should == 0 { return false; }
+            let eff = if msm == 0 && n_must == 0 { 1 } else { msm };
+            let mut hits = 0;
+            for (o, sub) in cs {
+                let m = eval(sub, d);
+                match o {
+                    Oc::Must => if !m { return false; },
+                    Oc::MustNot => if m { return false; },
+                    Oc::Should => if m { hits += 1; },
+                }
+            }
+            hits >= eff
+        }
+    }
+}
+
+// ---------------------------------------------------------------------------------------------
+// running the real code
+// ---------------------------------------------------------------------------------------------
+
+#[derive(Debug, Clone, PartialEq)]
+enum Out {
+    Ids(Vec<u64>),
+    Count(u64),
+    Err(String),
+}
+
+struct RealRun {
+    /// (path name, scoring enabled, through `Weight::for_each*` (collector path), output)
+    paths: Vec<(&'static str, bool, bool, Out)>,
+    unsorted: Option<String>,
+}
+
+fn ids_of(searcher: &Searcher, addrs: impl Iterator<Item = tantivy::DocAddress>) -> Vec<u64> {
+    let mut v: Vec<u64> = addrs
+        .map(|a| searcher.segment_reader(a.segment_ord).fast_fields().u64("id").unwrap().first(a.doc_id).unwrap())
+        .collect();
+    v.sort();
+    v
+}
+
+fn run_real(searcher: &Searcher, q: &dyn Query, limit: usize) -> RealRun {
+    let mut paths: Vec<(&'static str, bool, bool, Out)> = vec![];
+    let e = |r: String| Out::Err(r);
+    // Count -> Weight::count -> Weight::scorer
+    paths.push(("Count", false, false, match searcher.search(q, &Count) { Ok(c) => Out::Count(c as u64), Err(x) => e(x.to_string()) }));
+    // DocSetCollector -> Weight::for_each_no_score
+    paths.push(("DocSetCollector", false, true, match searcher.search(q, &DocSetCollector) { Ok(s) => Out::Ids(ids_of(searcher, s.into_iter())), Err(x) => e(x.to_string()) }));
+    // TopDocs -> Weight::for_each_pruning
+    paths.push(("TopDocs", true, true, match searcher.search(q, &TopDocs::with_limit(limit).order_by_score()) { Ok(v) => Out::Ids(ids_of(searcher, v.into_iter().map(|x| x.1))), Err(x) => e(x.to_string()) }));
+    // tuple collector with scoring -> Weight::for_each
+    match searcher.search(q, &(TopDocs::with_limit(limit).order_by_score(), DocSetCollector, Count)) {
+        Ok((top, set, cnt)) => {
+            paths.push(("(TopDocs,_,_)", true, true, Out::Ids(ids_of(searcher, top.into_iter().map(|x| x.1)))));
+            paths.push(("(_,DocSet,_) scoring", true, true, Out::Ids(ids_of(searcher, set.into_iter()))));
+            paths.push(("(_,_,Count) scoring", true, true, Out::Count(cnt as u64)));
+        }
+        Err(x) => paths.push(("(TopDocs,DocSet,Count)", true, true, e(x.to_string()))),
+    }
+    // MultiCollector without / with a scoring collector
+    {
+        let mut mc = MultiCollector::new();
+        let h_set = mc.add_collector(DocSetCollector);
+        let h_cnt = mc.add_collector(Count);
+        match searcher.search(q, &mc) {
+            Ok(mut fruits) => {
+                paths.push(("MultiCollector[DocSet]", false, true, Out::Ids(ids_of(searcher, h_set.extract(&mut fruits).into_iter()))));
+                paths.push(("MultiCollector[Count]", false, true, Out::Count(h_cnt.extract(&mut fruits) as u64)));
+            }
+            Err(x) => paths.push(("MultiCollector", false, true, e(x.to_string()))),
+        }
+        let mut mc = MultiCollector::new();
+        let h_top = mc.add_collector(TopDocs::with_limit(limit).order_by_score());
+        let h_set = mc.add_collector(DocSetCollector);
+        match searcher.search(q, &mc) {
+            Ok(mut fruits) => {
+                paths.push(("MultiCollector[TopDocs] scoring", true, true, Out::Ids(ids_of(searcher, h_top.extract(&mut fruits).into_iter().map(|x| x.1)))));
+                paths.push(("MultiCollector[DocSet] scoring", true, true, Out::Ids(ids_of(searcher, h_set.extract(&mut fruits).into_iter()))));
+            }
+            Err(x) => paths.push(("MultiCollector scoring", true, true, e(x.to_string()))),
+        }
+    }
+    // FilterCollector on the fast field `num` (documents without a value are filtered out)
+    paths.push((FILTERED, false, true, match searcher.search(q, &FilterCollector::new("num".to_string(), filter_pred, DocSetCollector)) { Ok(s) => Out::Ids(ids_of(searcher, s.into_iter())), Err(x) => e(x.to_string()) }));
+    paths.push(("Query::count", false, false, match q.count(searcher) { Ok(c) => Out::Count(c as u64), Err(x) => e(x.to_string()) }));
+    let mut unsorted = None;
+    for (name, cname, scoring) in [("Weight::scorer disabled_from_searcher", "Weight::count disabled_from_searcher", false), ("Weight::scorer enabled_from_searcher", "Weight::count enabled_from_searcher", true)] {
+        let es = if scoring { EnableScoring::enabled_from_searcher(searcher) } else { EnableScoring::disabled_from_searcher(searcher) };
+        match q.weight(es) {
+            Err(x) => paths.push((name, scoring, false, e(x.to_string()))),
+            Ok(w) => {
+                let mut ids = vec![];
+                let mut cnt = 0u64;
+                let mut err = None;
+                for r in searcher.segment_readers() {
+                    match w.scorer(r, 1.0) {
+                        Err(x) => { err = Some(x.to_string()); break; }
+                        Ok(mut sc) => {
+                            let col = r.fast_fields().u64("id").unwrap();
+                            let mut d = sc.doc();
+                            let mut prev: Option<u32> = None;
+                            while d != TERMINATED {
+                                if prev.map(|p| p >= d).unwrap_or(false) || d >= r.max_doc() {
+                                    unsorted = Some(format!("{name}: doc {d} after {:?} (max_doc {})", prev, r.max_doc()));
+                                    break;
+                                }
+                                prev = Some(d);
+                                if !r.is_deleted(d) {
+                                    ids.push(col.first(d).unwrap());
+                                }
+                                d = sc.advance();
+                            }
+                        }
+                    }
+                    match w.count(r) {
+                        Ok(c) => cnt += c as u64,
+                        Err(x) => { err = Some(x.to_string()); break; }
+                    }
+                }
+                ids.sort();
+                match err {
+                    Some(x) => paths.push((name, scoring, false, e(x))),
+                    None => {
+                        paths.push((name, scoring, false, Out::Ids(ids)));
+                        paths.push((cname, scoring, false, Out::Count(cnt)));
+                    }
+                }
+            }
+        }
+    }
+    RealRun { paths, unsorted }
+}
+
+const FILTERED: &str = "FilterCollector(num)[DocSet]";
+
+fn filter_pred(v: u64) -> bool {
+    v % 3 != 1 && v < (1u64 << 63)
+}
+
+fn parse_ids(s: &str) -> Vec<u64> {
+    let mut v = crate::model::parse_nat_list(s).unwrap_or_default();
+    v.sort();
+    v
+}
+
+fn agrees_plain(o: &Out, ids: &[u64]) -> bool {
+    match o {
+        Out::Ids(v) => v == ids,
+        Out::Count(c) => *c as usize == ids.len(),
+        Out::Err(_) => false,
+    }
+}
+
+fn short(ids: &[u64]) -> String {
+    if ids.len() <= 12 { format!("{:?}", ids) } else { format!("{:?}… ({} ids)", &ids[..12], ids.len()) }
+}
+
+fn vocab_of(b: &Built) -> HashMap<u32, BTreeSet<Vec<u8>>> {
+    let mut v: HashMap<u32, BTreeSet<Vec<u8>>> = HashMap::new();
+    for d in b.by_id.values() {
+        for (f, t, _) in &d.postings {
+            v.entry(*f).or_default().insert(t.clone());
+        }
+    }
+    v
+}
+
+/// Which recorded deviation is *active* for this query on this corpus: for every sub-query that
+/// falsifies a named hypothesis (single-clause msm node, ≥3-term sloppy phrase, fuzzy prefix leaf)
+/// the implementation model and the specification are evaluated on the sub-query alone; the
+/// hypothesis is active iff they differ there. Returns the attribution key of the first active
+/// kind (None: no recorded deviation can explain a failure of this query).
+fn active_deviation(ctx: &mut Ctx, cl: &str, vocab: &HashMap<u32, BTreeSet<Vec<u8>>>, q: &Q) -> Option<&'static str> {
+    let mut subs: Vec<(&'static str, Q)> = vec![];
+    fn walk(q: &Q, subs: &mut Vec<(&'static str, Q)>) {
+        match q {
+            Q::Bool(cs, Some(m)) if cs.len() == 1 && cs[0].0 == Oc::Should && *m >= 2 => subs.push((K_F4, q.clone())),
+            Q::Bool(cs, Some(m)) if cs.len() == 1 && cs[0].0 == Oc::Must && *m >= 1 => subs.push((K_F4M, q.clone())),
+            Q::Phrase { terms, slop, .. } | Q::JPhrase { terms, slop } if terms.len() >= 3 && *slop >= 1 => subs.push((K_S6, q.clone())),
+            Q::Fuzzy { prefix: true, .. } => subs.push((K_FZP, q.clone())),
+            _ => {}
+        }
+        match q {
+            Q::Boost(x) | Q::Const(x) => walk(x, subs),
+            Q::DisMax(qs) => qs.iter().for_each(|x| walk(x, subs)),
+            Q::Bool(cs, _) => cs.iter().for_each(|(_, x)| walk(x, subs)),
+            _ => {}
+        }
+    }
+    walk(q, &mut subs);
+    if subs.is_empty() { return None; }
+    let joined = subs.iter().map(|(_, x)| x.model_str(vocab)).collect::<Vec<_>>().join(" ");
+    let split = |s: String| -> Vec<String> { s.split(';').map(|x| x.to_string()).collect() };
+    let ans = split(ctx.model.ask(&format!("C03 answer {cl} {joined}")));
+    let on = split(ctx.model.ask(&format!("C03 search 1 0 {cl} {joined}")));
+    let off = split(ctx.model.ask(&format!("C03 search 0 0 {cl} {joined}")));
+    let top = split(ctx.model.ask(&format!("C03 search 0 1 {cl} {joined}")));
+    if ans.len() != subs.len() || on.len() != subs.len() || off.len() != subs.len() || top.len() != subs.len() { return None; }
+    let mut active: Vec<&'static str> = vec![];
+    for (i, (k, _)) in subs.iter().enumerate() {
+        let (a, n, f, t) = (parse_ids(&ans[i]), parse_ids(&on[i]), parse_ids(&off[i]), parse_ids(&top[i]));
+        if n != a || f != a || t != a {
+            active.push(if *k == K_S6 { if n != f { K_S6 } else { K_S6B } } else { k });
+        }
+    }
+    for k in [K_F4, K_F4M, K_S6, K_S6B, K_FZP] {
+        if active.contains(&k) { return Some(k); }
+    }
+    None
+}
+
+static LAST_PANIC: std::sync::Mutex<String> = std::sync::Mutex::new(String::new());
+
+fn last_panic() -> String {
+    LAST_PANIC.lock().map(|s| s.clone()).unwrap_or_default()
+}
+
+fn out_str(o: &Out) -> String {
+    match o { Out::Ids(v) => short(v), Out::Count(c) => format!("count {c}"), Out::Err(e) => format!("error {e}") }
+}
+
+/// evaluate a batch of queries on one built corpus
+fn check_queries(ctx: &mut Ctx, spec: &CorpusSpec, b: &Built, qs: &[Q]) {
+    if qs.is_empty() { return; }
+    let vocab = vocab_of(b);
+    let cl = corpus_line(b);
+    let qstrs: Vec<String> = qs.iter().map(|q| q.model_str(&vocab)).collect();
+    let joined = qstrs.join(" ");
+    let split = |s: String| -> Vec<String> { s.split(';').map(|x| x.to_string()).collect() };
+    let ans = split(ctx.model.ask(&format!("C03 answer {cl} {joined}")));
+    // implementation model, indexed [scoring][top]
+    let mut m: [[Vec<String>; 2]; 2] = Default::default();
+    for sc in 0..2 {
+        for top in 0..2 {
+            m[sc][top] = split(ctx.model.ask(&format!("C03 search {sc} {top} {cl} {joined}")));
+        }
+    }
+    let mcount = split(ctx.model.ask(&format!("C03 count {cl} {joined}")));
+    // the named hypotheses of C03_compile_sound_partial, evaluated by the model on each query
+    let mok = split(ctx.model.ask(&format!("C03 ok {joined}")));
+    let n_docs: usize = b.segs.iter().map(|s| s.len()).sum();
+    let n_live = b.expected_live.len();
+    let multi = b.segs.len() >= 2 || b.segs.iter().any(|s| s.iter().any(|d| !d.1));
+    for (i, q) in qs.iter().enumerate() {
+        let case = json!({"kind": "query", "corpus": spec, "query": q});
+        if ans.len() != qs.len() || m.iter().flatten().any(|v| v.len() != qs.len()) || mcount.len() != qs.len() {
+            ctx.report.violation("model", "C03:model-rejected-request", format!("model answered {:?} / {:?} for {}", ans.get(0), m[0][0].get(0), qstrs[i]), case);
+            return;
+        }
+        let spec_ids = parse_ids(&ans[i]);
+        let mi: [[Vec<u64>; 2]; 2] = [[parse_ids(&m[0][0][i]), parse_ids(&m[0][1][i])], [parse_ids(&m[1][0][i]), parse_ids(&m[1][1][i])]];
+        // native evaluation
+        let mut native: Vec<u64> = b.segs.iter().flat_map(|s| s.iter()).filter(|(d, alive)| *alive && eval(q, d)).map(|(d, _)| d.id).collect();
+        native.sort();
+        let mut kinds = BTreeSet::new();
+        q.kinds(&mut kinds);
+        for k in &kinds { ctx.report.count(&format!("leaf:{k}")); }
+        ctx.report.count(&format!("depth:{}", q.depth()));
+        let nontrivial = multi && q.depth() >= 2 && !spec_ids.is_empty() && spec_ids.len() < n_live;
+        ctx.report.case(&format!("{}|{}", cl.len(), qstrs[i]), nontrivial);
+        if native != spec_ids {
+            ctx.report.violation("model", "C03:native-evaluator-vs-lean-spec", format!("native {} vs lean answer {} for {}", short(&native), short(&spec_ids), qstrs[i]), case.clone());
+            continue;
+        }
+        let real = match catch_unwind(AssertUnwindSafe(|| run_real(&b.searcher, q.real().as_ref(), n_docs + 1))) {
+            Ok(r) => r,
+            Err(_) => {
+                let msg = last_panic();
+                // narrow attribution: the debug assertion `target >= self.doc()` of
+                // PhraseScorer::seek_danger fired on a phrase scorer used as an exclusion set
+                // (Exclude::contains seeks it to a target behind its current document)
+                let key = if msg.contains("phrase_scorer.rs") && msg.contains("should be greater than or equal to doc (") && q.sig_excluded_phrase() { K_PANIC_PHRASE }
+                    // bound_range_inclusive_ip: `Excluded(0)` as upper / `Excluded(u128::MAX)` as lower bound
+                    else if msg.contains("range_query_fastfield.rs") && msg.contains("with overflow") && q.sig_ip_overflow() { K_IP_OVERFLOW }
+                    else { "C03:panic" };
+                ctx.report.violation("oracle", key, format!("search panicked ({}) for {}", msg, qstrs[i]), case);
+                continue;
+            }
+        };
+        if let Some(u) = &real.unsorted {
+            ctx.report.violation("oracle", "C03:scorer-not-sorted", u.clone(), case.clone());
+        }
+        if std::env::var("C03_DEBUG").is_ok() {
+            for p in &real.paths {
+                if let Out::Ids(v) = &p.3 {
+                    let diff: Vec<u64> = v.iter().filter(|i| !spec_ids.contains(i)).chain(spec_ids.iter().filter(|i| !v.contains(i))).cloned().collect();
+                    if !diff.is_empty() && p.0 == "DocSetCollector" {
+                        let docs: Vec<String> = diff.iter().map(|id| format!("{id}: {:?}", b.by_id.get(id).map(|d| d.postings.iter().map(|(f, t, ps)| format!("{f}:{}:{:?}", String::from_utf8_lossy(t), ps)).collect::<Vec<_>>()))).collect();
+                        ctx.report.notes.push(format!("DEBUG {} differs on {:?} for {}", p.0, docs, qstrs[i]));
+                    }
+                }
+            }
+        }
+        let (f4, f4m, s6) = (q.sig_f4(), q.sig_f4m(), q.sig_s6());
+        let fzp = q.sig_fzp();
+        if mok.get(i).map(|s| s == "0").unwrap_or(false) != (f4 || f4m || s6 || fzp) {
+            ctx.report.violation("model", "C03:okq-vs-harness-signature", format!("model okQ = {:?} but harness signatures f4={f4} f4m={f4m} s6={s6} fuzzy-prefix={fzp} for {}", mok.get(i), qstrs[i]), case.clone());
+        }
+        // the FilterCollector path keeps only documents whose `num` satisfies the predicate
+        let keep = |id: &u64| b.by_id.get(id).map(|d| d.fast.iter().any(|(f, v)| *f == F_NUM && filter_pred(*v as u64))).unwrap_or(false);
+        let filt = |name: &str, ids: &Vec<u64>| -> Vec<u64> { if name == FILTERED { ids.iter().filter(|i| keep(i)).cloned().collect() } else { ids.clone() } };
+        let agrees = |name: &str, o: &Out, ids: &Vec<u64>| -> bool { agrees_plain(o, &filt(name, ids)) };
+        let off_ref = real.paths.iter().find(|p| !p.1 && matches!(p.3, Out::Ids(_))).map(|p| p.3.clone());
+        let all_ok = real.paths.iter().all(|p| !matches!(p.3, Out::Err(_)));
+        // does the implementation model (which mirrors exactly the recorded deviations: the
+        // single-clause shortcut and the two slop algorithms) reproduce every real path?
+        let impl_explains = real.paths.iter().all(|p| agrees(p.0, &p.3, &mi[p.1 as usize][p.2 as usize]));
+        // a failure is attributed to a recorded deviation only if (1) the implementation model
+        // reproduces every real path and (2) that deviation is active on this corpus (computed
+        // lazily, only when some path fails)
+        let fails = real.paths.iter().any(|p| !matches!(p.3, Out::Err(_)) && !agrees(p.0, &p.3, &spec_ids))
+            || real.paths.iter().any(|p| match (&p.3, &off_ref) { (Out::Err(_), _) => false, (o, Some(Out::Ids(r))) => !agrees(p.0, o, r), _ => false });
+        let attributed: Option<&'static str> = if fails && impl_explains && (f4 || f4m || s6 || fzp) { active_deviation(ctx, &cl, &vocab, q) } else { None };
+        let known_key = |_differs_from_spec: bool| -> Option<&'static str> { attributed };
+        for (name, scoring, top, out) in &real.paths {
+            ctx.report.count(&format!("path:{name}"));
+            if let Out::Err(e) = out {
+                ctx.report.violation("oracle", "C03:unexpected-error", format!("{name}: {e} for {}", qstrs[i]), case.clone());
+                continue;
+            }
+            let model_ids = &mi[*scoring as usize][*top as usize];
+            if !agrees(name, out, &spec_ids) {
+                let what = format!("{name} (scoring {}) gives {}, brute force gives {} for {}", if *scoring { "on" } else { "off" }, out_str(out), short(&spec_ids), qstrs[i]);
+                let key = known_key(true).unwrap_or("C03:result-differs-from-brute-force");
+                ctx.report.violation("oracle", key, what, case.clone());
+            }
+            if !agrees(name, out, model_ids) {
+                ctx.report.violation("model", "C03:compile-model-vs-implementation", format!("{name}: real {} but compile model gives {} for {}", out_str(out), short(model_ids), qstrs[i]), case.clone());
+            }
+        }
+        // consistency clause, checked as stated: all paths give the same set
+        if all_ok {
+            if let Some(Out::Ids(ref_ids)) = &off_ref {
+                for p in &real.paths {
+                    if !agrees(p.0, &p.3, ref_ids) {
+                        let key = known_key(false).unwrap_or(if p.1 { "C03:scoring-on-off-differ" } else { "C03:collectors-disagree" });
+                        ctx.report.violation("oracle", key, format!("{} gives {} but DocSetCollector gives {} for {}", p.0, out_str(&p.3), short(ref_ids), qstrs[i]), case.clone());
+                    }
+                }
+            }
+        }
+        // Weight::count model (count shortcut incl. deletes)
+        if let Some((_, _, _, Out::Count(c))) = real.paths.iter().find(|p| p.0 == "Query::count") {
+            if mcount[i] != c.to_string() {
+                ctx.report.violation("model", "C03:count-model-vs-implementation", format!("Query::count {c} vs model weightCount {} for {}", mcount[i], qstrs[i]), case.clone());
+            }
+        }
+        if f4 || f4m { ctx.report.count("signature:single-clause-msm"); }
+        if s6 { ctx.report.count("signature:phrase-3terms-slop"); }
+        if ctx.report.samples.len() < 4 && nontrivial {
+            ctx.report.sample(json!({"segments": b.segs.iter().map(|s| s.len()).collect::<Vec<_>>(), "deleted": n_docs - b.segs.iter().map(|s| s.iter().filter(|d| d.1).count()).sum::<usize>(), "query": format!("{:?}", q), "model_query": qstrs[i], "answer": spec_ids, "paths_compared": real.paths.iter().map(|p| p.0).collect::<Vec<_>>()}));
+        }
+    }
+}
+
+// ---------------------------------------------------------------------------------------------
+// generators
+// ---------------------------------------------------------------------------------------------
+
+const WORDS: [&str; 24] = ["a", "b", "c", "d", "aa", "ab", "abc", "abd", "b1", "alpha", "alp", "alpine", "beta", "bet", "gamma", "x", "y", "zz", "naïve", "straße", "日本", "日本語", "ça", "élan"];
+const CATS: [&str; 7] = ["a", "ab", "abc", "b", "B", "zz", "ünï"];
+const TAGS: [&str; 8] = ["red", "green", "blue", "re", "Red Blue", "", "gr een", "ünï"];
+
+fn boundary_u64(rng: &mut Rng) -> u64 {
+    *rng.pick(&[0u64, 1, 2, 127, 128, 129, 255, 256, 4095, 4096, 4097, 65535, 65536, u32::MAX as u64, (1u64 << 63) - 1, 1u64 << 63, (1u64 << 63) + 1, u64::MAX - 1, u64::MAX, 7, 8, 9, 10, 100])
+}
+fn boundary_i64(rng: &mut Rng) -> i64 {
+    *rng.pick(&[i64::MIN, i64::MIN + 1, -4097, -4096, -256, -129, -128, -2, -1, 0, 1, 2, 127, 128, 255, 256, 4096, i64::MAX - 1, i64::MAX, -7, 7, 10, -10])
+}
+fn boundary_f64(rng: &mut Rng) -> u64 {
+    rng.pick(&[f64::NEG_INFINITY, f64::MIN, -1e300, -2.5, -1.0, -f64::MIN_POSITIVE, -0.0, 0.0, f64::MIN_POSITIVE, 5e-324, 0.5, 1.0, 1.5, 2.0, 1e10, f64::MAX, f64::INFINITY, 3.25, -3.25]).to_bits()
+}
+fn boundary_secs(rng: &mut Rng) -> i64 {
+    *rng.pick(&[-9_000_000_000i64, -86_400, -1, 0, 1, 59, 60, 86_400, 1_000_000_000, 1_700_000_000, 4_000_000_000, 9_000_000_000])
+}
+fn boundary_ip(rng: &mut Rng) -> u128 {
+    *rng.pick(&[0u128, u128::MAX, 1u128, 2, 255, 256, 0xffff_7f00_0001, 0xffff_c0a8_0001, 0xffff_ffff_ffff, 1u128 << 64, (1u128 << 64) + 1, 1u128 << 127, u128::MAX - 1, 0x2001_0db8u128 << 96])
+}
+
+fn gen_text(rng: &mut Rng, heavy: &str) -> String {
+    let n = match rng.below(10) { 0 => 0, 1 => 1, 2..=6 => 2 + rng.usize_below(5), _ => 6 + rng.usize_below(10) };
+    let mut ws: Vec<&str> = vec![];
+    for _ in 0..n {
+        // skewed vocabulary: small indices are frequent
+        let k = (rng.usize_below(WORDS.len()) * rng.usize_below(WORDS.len() + 1)) / WORDS.len();
+        ws.push(WORDS[k.min(WORDS.len() - 1)]);
+    }
+    if !heavy.is_empty() {
+        ws.insert(rng.usize_below(ws.len() + 1), heavy);
+    }
+    let seps = [" ", "  ", ", ", " - ", ". "];
+    let mut s = String::new();
+    for (i, w) in ws.iter().enumerate() {
+        if i > 0 { let sep: &str = seps[rng.usize_below(seps.len())]; s.push_str(sep); }
+        if rng.chance(1, 9) { s.push_str(&w.to_uppercase()); } else { s.push_str(w); }
+    }
+    s
+}
+
+fn gen_doc(rng: &mut Rng, id: u64, profile: u64) -> DocSpec {
+    let mut d = DocSpec { id, ..Default::default() };
+    // profile 1: every doc carries the word "all" (term present in all docs); profile 2: sparse
+    let heavy = if profile == 1 { "every" } else { "" };
+    let p = |rng: &mut Rng, num: u64| rng.chance(num, 10);
+    if profile == 1 || p(rng, 9) { d.body = Some(gen_text(rng, heavy)); }
+    if p(rng, 6) { d.title = Some(gen_text(rng, "")); }
+    if p(rng, 7) { d.tag = Some(rng.pick(&TAGS).to_string()); }
+    if p(rng, if profile == 3 { 10 } else { 7 }) { d.num = Some(if rng.chance(1, 2) { boundary_u64(rng) } else { rng.below(20) }); }
+    if p(rng, 7) { d.inum = Some(if rng.chance(1, 2) { boundary_i64(rng) } else { rng.below(20) as i64 - 10 }); }
+    if p(rng, 6) { d.score = Some(boundary_f64(rng)); }
+    if p(rng, 6) { d.when = Some(boundary_secs(rng)); }
+    if p(rng, 5) { d.ip = Some(boundary_ip(rng).to_string()); }
+    if p(rng, 5) { d.flag = Some(rng.chance(1, 2)); }
+    if p(rng, 4) { d.blob = Some(match rng.below(4) { 0 => vec![], 1 => vec![0], 2 => vec![0xff, 0], _ => { let k = 1 + rng.usize_below(3); rng.bytes(k) } }); }
+    if p(rng, 6) { d.ifast = Some(boundary_i64(rng)); }
+    if p(rng, 6) { d.cat = Some(rng.pick(&CATS).to_string()); }
+    if p(rng, 6) {
+        // flat object with distinct keys; every key holds one type across the corpus
+        let mut attrs = vec![];
+        if p(rng, 7) { attrs.push((0usize, JVal::Str(gen_text(rng, "")))); }
+        if p(rng, 7) { attrs.push((1usize, JVal::Int(if rng.chance(1, 2) { boundary_i64(rng) } else { rng.below(12) as i64 - 6 }))); }
+        if p(rng, 4) { attrs.push((2usize, JVal::Bool(rng.chance(1, 2)))); }
+        d.attrs = Some(attrs);
+    }
+    d
+}
+
+fn gen_corpus(rng: &mut Rng, size_class: u64) -> CorpusSpec {
+    let n = match size_class {
+        0 => *rng.pick(&[0usize, 1, 2, 3, 5, 8]),
+        1 => 10 + rng.usize_below(50),
+        2 => *rng.pick(&[127usize, 128, 129, 130, 200, 257]),
+        _ => *rng.pick(&[4095usize, 4097, 4200]),
+    };
+    let profile = rng.below(4);
+    let mut docs: Vec<DocSpec> = (0..n).map(|i| gen_doc(rng, 1000 + i as u64, profile)).collect();
+    if size_class >= 3 {
+        // narrow documents: keep the request lines small
+        for d in docs.iter_mut() {
+            d.title = None;
+            if let Some(b) = &d.body {
+                d.body = Some(b.split_whitespace().take(3).collect::<Vec<_>>().join(" "));
+            }
+        }
+    }
+    let nseg = 1 + rng.usize_below(6);
+    let mut chunks = vec![];
+    let mut left = n;
+    for s in 0..nseg {
+        let c = if s + 1 == nseg { left } else if left == 0 { 0 } else {
+            match rng.below(4) { 0 => 1.min(left), 1 => (left / 2).max(1), _ => 1 + rng.usize_below(left) }
+        };
+        if c > 0 { chunks.push(c); }
+        left -= c;
+    }
+    if chunks.is_empty() { chunks.push(0); }
+    let cut = if rng.chance(1, 4) && n > 4 { (2 + rng.usize_below(n / 2)) as u32 } else { 0 };
+    let mut deletes = vec![];
+    if n > 0 && rng.chance(2, 3) {
+        let nd = match rng.below(4) { 0 => 1, 1 => n / 2, 2 => (n / 10).max(1), _ => rng.usize_below(n) };
+        for _ in 0..nd {
+            let id = 1000 + rng.below(n as u64);
+            // a document can only be deleted after the commit that contains it
+            let mut acc = 0;
+            let mut first = 0;
+            for (ci, c) in chunks.iter().enumerate() {
+                acc += c;
+                if (id - 1000) < acc as u64 { first = ci; break; }
+            }
+            let at = first + rng.usize_below(chunks.len() - first);
+            deletes.push((at, id));
+        }
+    }
+    CorpusSpec { docs, chunks, cut, deletes, merge: rng.chance(1, 5) }
+}
+
+struct Pools {
+    words: Vec<String>,
+    tags: Vec<String>,
+}
+
+fn text_term(rng: &mut Rng, f: u32, pools: &Pools) -> TermS {
+    let s = if f == F_TAG {
+        if rng.chance(1, 8) { "absent".to_string() } else { rng.pick(&pools.tags).clone() }
+    } else if f == F_CAT {
+        if rng.chance(1, 8) { "aa".to_string() } else { rng.pick(&CATS).to_string() }
+    } else if rng.chance(1, 10) { "absentword".to_string() } else { rng.pick(&pools.words).clone() };
+    TermS { f, v: Val::Str(s) }
+}
+
+fn typed_val(rng: &mut Rng, f: u32) -> TermS {
+    let v = match f {
+        F_NUM | F_ID => Val::U64(if f == F_ID { 1000 + rng.below(70) } else if rng.chance(1, 2) { boundary_u64(rng) } else { rng.below(20) }),
+        F_INUM | F_IFAST => Val::I64(if rng.chance(1, 2) { boundary_i64(rng) } else { rng.below(20) as i64 - 10 }),
+        F_SCORE => Val::F64(boundary_f64(rng)),
+        F_WHEN => Val::Date(boundary_secs(rng)),
+        F_IP => Val::Ip(boundary_ip(rng).to_string()),
+        F_FLAG => Val::Bool(rng.chance(1, 2)),
+        _ => Val::Bytes(match rng.below(3) { 0 => vec![], 1 => vec![0], _ => vec![0xff, 0] }),
+    };
+    TermS { f, v }
+}
+
+fn gen_re(rng: &mut Rng, depth: u32, pools: &Pools) -> Re {
+    let chars: Vec<char> = "abcdelpx1zïß日本".chars().collect();
+    match if depth == 0 { rng.below(3) } else { rng.below(9) } {
+        0 => Re::Lit(*rng.pick(&chars)),
+        1 => Re::Any,
+        2 => { let n = 1 + rng.usize_below(3); Re::Class((0..n).map(|_| *rng.pick(&chars)).collect()) }
+        3 | 4 => {
+            // a vocabulary word, possibly cut, followed by something
+            let w: Vec<char> = rng.pick(&pools.words).chars().collect();
+            let cut = rng.usize_below(w.len() + 1);
+            let mut v: Vec<Re> = w[..cut].iter().map(|c| Re::Lit(*c)).collect();
+            v.push(gen_re(rng, depth - 1, pools));
+            Re::Seq(v)
+        }
+        5 => Re::Alt((0..2 + rng.usize_below(2)).map(|_| gen_re(rng, depth - 1, pools)).collect()),
+        6 => Re::Star(Box::new(gen_re(rng, depth - 1, pools))),
+        7 => Re::Plus(Box::new(gen_re(rng, depth - 1, pools))),
+        _ => Re::Opt(Box::new(gen_re(rng, depth - 1, pools))),
+    }
+}
+
+fn gen_bounds(rng: &mut Rng, mk: &mut dyn FnMut(&mut Rng) -> TermS) -> (Bd, Bd) {
+    let mut b = |rng: &mut Rng| match rng.below(5) { 0 => Bd::Unb, 1 | 2 => Bd::Incl(mk(rng)), _ => Bd::Excl(mk(rng)) };
+    let (lo, hi) = (b(rng), b(rng));
+    if lo == Bd::Unb && hi == Bd::Unb { (Bd::Incl(mk(rng)), Bd::Unb) } else { (lo, hi) }
+}
+
+fn gen_leaf(rng: &mut Rng, pools: &Pools) -> Q {
+    match rng.below(28) {
+        0..=5 => { let f = *rng.pick(&[F_BODY, F_BODY, F_BODY, F_TITLE, F_TAG, F_CAT]); Q::Term(text_term(rng, f, pools)) }
+        6 => { let f = *rng.pick(&[F_NUM, F_INUM, F_WHEN, F_IP, F_FLAG, F_BLOB, F_IFAST, F_ID]); Q::Term(typed_val(rng, f)) }
+        7..=9 => {
+            let wide = rng.chance(1, 4); let n = 2 + rng.usize_below(if wide { 3 } else { 1 });
+            let mut off = 0usize;
+            let terms = (0..n).map(|_| { let o = off; off += 1 + (rng.below(5) == 0) as usize; (o, rng.pick(&pools.words).clone()) }).collect::<Vec<_>>();
+            let slop = if rng.chance(1, 2) { 0 } else { 1 + rng.below(3) as u32 };
+            Q::Phrase { f: F_BODY, terms, slop }
+        }
+        10 | 11 => {
+            let n = 1 + rng.usize_below(3);
+            let mut terms: Vec<(usize, String)> = (0..n).map(|i| (i, rng.pick(&pools.words).clone())).collect();
+            let last = terms.last_mut().unwrap();
+            let cs: Vec<char> = last.1.chars().collect();
+            last.1 = cs[..1 + rng.usize_below(cs.len())].iter().collect();
+            Q::PhrasePrefix { f: F_BODY, terms }
+        }
+        12..=16 => {
+            // ranges: fast path on fast fields, term dictionary path otherwise
+            let (f, fast, inverted) = *rng.pick(&[(F_NUM, true, false), (F_NUM, false, true), (F_INUM, false, false), (F_SCORE, true, false), (F_WHEN, true, false), (F_IP, true, false), (F_IFAST, true, false), (F_IFAST, false, true), (F_TAG, false, false), (F_BODY, false, false), (F_WHEN, false, true), (F_ID, true, false), (F_CAT, false, false), (F_CAT, false, true)]);
+            let (lo, hi) = if f == F_TAG || f == F_BODY || f == F_CAT {
+                gen_bounds(rng, &mut |r| text_term(r, f, pools))
+            } else {
+                gen_bounds(rng, &mut |r| typed_val(r, f))
+            };
+            Q::Range { f, lo, hi, fast, inverted }
+        }
+        17 | 18 => {
+            let n = rng.usize_below(5);
+            Q::TermSet((0..n).map(|_| if rng.chance(1, 3) { let f = *rng.pick(&[F_NUM, F_INUM]); typed_val(rng, f) } else { let f = *rng.pick(&[F_BODY, F_TAG, F_TITLE]); text_term(rng, f, pools) }).collect())
+        }
+        19 | 20 => Q::Exists(*rng.pick(&[F_NUM, F_SCORE, F_WHEN, F_IP, F_BLOB, F_IFAST, F_ID, F_CAT])),
+        21 => if rng.chance(1, 2) { Q::All } else {
+            // JSON leaves
+            match rng.below(5) {
+                0 => Q::Term(TermS { f: F_ATTRS, v: Val::JStr(0, if rng.chance(1, 8) { "absent".into() } else { rng.pick(&pools.words).clone() }) }),
+                1 => Q::Term(TermS { f: F_ATTRS, v: Val::JInt(1, if rng.chance(1, 2) { boundary_i64(rng) } else { rng.below(12) as i64 - 6 }) }),
+                2 => {
+                    let n = 2 + rng.usize_below(2);
+                    Q::JPhrase { terms: (0..n).map(|i| (i, rng.pick(&pools.words).clone())).collect(), slop: if rng.chance(2, 3) { 0 } else { 1 + rng.below(2) as u32 } }
+                }
+                3 => Q::JExists(if rng.chance(1, 3) { None } else { Some(rng.usize_below(JKEYS.len())) }),
+                _ => {
+                    let mut b = |rng: &mut Rng| match rng.below(4) { 0 => None, _ => Some((rng.chance(1, 2), if rng.chance(1, 3) { boundary_i64(rng) } else { rng.below(12) as i64 - 6 })) };
+                    let (lo, hi) = (b(rng), b(rng));
+                    if lo.is_none() && hi.is_none() { Q::JRange { lo: Some((true, 0)), hi: None } } else { Q::JRange { lo, hi } }
+                }
+            }
+        },
+        22 => Q::Empty,
+        23..=25 => {
+            let f = *rng.pick(&[F_BODY, F_BODY, F_TAG]);
+            let mut t = text_term(rng, f, pools);
+            if let Val::Str(s) = &mut t.v {
+                // perturb the word
+                let mut cs: Vec<char> = s.chars().collect();
+                match rng.below(5) {
+                    0 if !cs.is_empty() => { cs.remove(rng.usize_below(cs.len())); }
+                    1 => { cs.insert(rng.usize_below(cs.len() + 1), *rng.pick(&['a', 'b', 'z', 'ï'])); }
+                    2 if cs.len() >= 2 => { let i = rng.usize_below(cs.len() - 1); cs.swap(i, i + 1); }
+                    3 if !cs.is_empty() => { let i = rng.usize_below(cs.len()); cs[i] = *rng.pick(&['a', 'c', 'q', '本']); }
+                    _ => {}
+                }
+                *s = cs.into_iter().collect();
+            }
+            Q::Fuzzy { t, d: rng.below(3) as u8, transp: rng.chance(1, 2), prefix: rng.chance(1, 3) }
+        }
+        _ => Q::Regex { f: *rng.pick(&[F_BODY, F_TAG]), re: gen_re(rng, 2, pools) },
+    }
+}
+
+fn gen_query(rng: &mut Rng, depth: u32, pools: &Pools) -> Q {
+    if depth == 0 {
+        return gen_leaf(rng, pools);
+    }
+    match rng.below(20) {
+        0..=4 => gen_leaf(rng, pools),
+        5 => Q::Boost(Box::new(gen_query(rng, depth - 1, pools))),
+        6 => Q::Const(Box::new(gen_query(rng, depth - 1, pools))),
+        7 | 8 => Q::DisMax((0..rng.usize_below(4)).map(|_| gen_query(rng, depth - 1, pools)).collect()),
+        _ => {
+            let n = match rng.below(10) { 0 => 0, 1 | 2 => 1, 3..=5 => 2, 6 | 7 => 3, 8 => 4, _ => 5 };
+            let style = rng.below(6);
+            let cs: Vec<(Oc, Q)> = (0..n).map(|_| {
+                let o = match style {
+                    0 => Oc::MustNot,
+                    1 => Oc::Should,
+                    2 => Oc::Must,
+                    3 => *rng.pick(&[Oc::Should, Oc::Should, Oc::MustNot]),
+                    _ => *rng.pick(&[Oc::Must, Oc::Should, Oc::Should, Oc::MustNot]),
+                };
+                (o, gen_query(rng, depth - 1, pools))
+            }).collect();
+            let msm = if rng.chance(1, 2) { None } else { Some(rng.usize_below(n + 2)) };
+            Q::Bool(cs, msm)
+        }
+    }
+}
+
+fn pools_of(b: &Built) -> Pools {
+    let vocab = vocab_of(b);
+    let take = |f: u32| -> Vec<String> { vocab.get(&f).map(|s| s.iter().filter_map(|t| String::from_utf8(t.clone()).ok()).collect()).unwrap_or_default() };
+    let mut words = take(F_BODY);
+    if words.is_empty() { words = vec!["a".into(), "b".into()]; }
+    let mut tags = take(F_TAG);
+    if tags.is_empty() { tags = vec!["red".into()]; }
+    Pools { words, tags }
+}
+
+// ---------------------------------------------------------------------------------------------
+// phrase-slop algorithms: real scoring-on / scoring-off vs the mirrored models (per document)
+// ---------------------------------------------------------------------------------------------
+
+fn check_phrase_algorithms(ctx: &mut Ctx, spec: &CorpusSpec, b: &Built, rng: &mut Rng, n_queries: usize) {
+    let pools = pools_of(b);
+    let small: Vec<String> = pools.words.iter().filter(|w| w.chars().count() <= 2).cloned().collect();
+    let words = if small.len() >= 3 { small } else { pools.words.clone() };
+    for _ in 0..n_queries {
+        let n = 2 + rng.usize_below(3);
+        let terms: Vec<(usize, String)> = (0..n).map(|i| (i, rng.pick(&words).clone())).collect();
+        let slop = 1 + rng.below(3) as u32;
+        let q = Q::Phrase { f: F_BODY, terms: terms.clone(), slop };
+        let case = json!({"kind": "phrase-algorithms", "corpus": spec, "query": q});
+        let rq = q.real();
+        for scoring in [false, true] {
+            let es = if scoring { EnableScoring::enabled_from_searcher(&b.searcher) } else { EnableScoring::disabled_from_searcher(&b.searcher) };
+            let w = match rq.weight(es) { Ok(w) => w, Err(e) => { ctx.report.violation("oracle", "C03:unexpected-error", e.to_string(), case.clone()); continue; } };
+            for (si, r) in b.searcher.segment_readers().iter().enumerate() {
+                // processing order of the scorer: stable sort by doc_freq (DocSet::cost of SegmentPostings)
+                let inv = r.inverted_index(fld(F_BODY)).unwrap();
+                let mut order: Vec<(usize, u32)> = vec![];
+                let mut missing = false;
+                for (i, (_, t)) in terms.iter().enumerate() {
+                    match inv.get_term_info(&Term::from_field_text(fld(F_BODY), t)).unwrap() {
+                        Some(ti) => order.push((i, ti.doc_freq)),
+                        None => missing = true,
+                    }
+                }
+                order.sort_by_key(|x| x.1);
+                let mut real: BTreeSet<u32> = BTreeSet::new();
+                let res = catch_unwind(AssertUnwindSafe(|| {
+                    let mut sc = w.scorer(r, 1.0).unwrap();
+                    let mut d = sc.doc();
+                    let mut v = vec![];
+                    while d != TERMINATED { v.push(d); d = sc.advance(); }
+                    v
+                }));
+                match res {
+                    Ok(v) => real.extend(v),
+                    Err(_) => { ctx.report.violation("oracle", "C03:panic", format!("phrase scorer panicked ({}) for {:?}", last_panic(), q), case.clone()); continue; }
+                }
+                let mx = terms.iter().map(|x| x.0).max().unwrap();
+                for (doc, (md, _alive)) in b.segs[si].iter().enumerate() {
+                    let adj = adjusted(md, F_BODY, &terms, mx);
+                    let all_present = adj.iter().all(|a| !a.is_empty());
+                    let expect = if missing || !all_present { false } else {
+                        let lists: Vec<String> = order.iter().map(|(i, _)| adj[*i].iter().map(|p| p.to_string()).collect::<Vec<_>>().join(".")).collect();
+                        ctx.model.ask(&format!("C03 slop {} {} {}", if scoring { "on" } else { "off" }, slop, lists.join("/"))) == "1"
+                    };
+                    let got = real.contains(&(doc as u32));
+                    ctx.report.count(&format!("phrase-alg:{}terms:{}", n, if scoring { "on" } else { "off" }));
+                    ctx.report.case(&format!("pa|{}|{}|{:?}|{}|{}", si, doc, terms, slop, scoring), all_present && !missing);
+                    if got != expect {
+                        ctx.report.violation("model", "C03:phrase-slop-algorithm-model-vs-implementation", format!("segment {si} doc {doc} ({} terms, slop {slop}, scoring {}): real {got} model {expect}; adjusted positions in processing order {:?}", n, scoring, order.iter().map(|(i, _)| adj[*i].clone()).collect::<Vec<_>>()), case.clone());
+                    }
+                }
+            }
+        }
+    }
+}
+
+// ---------------------------------------------------------------------------------------------
+// encodings
+// ---------------------------------------------------------------------------------------------
+
+fn check_encodings(ctx: &mut Ctx) {
+    let mut rng = ctx.rng.fork();
+    let mut prev_i: Option<(i64, u64)> = None;
+    let mut samples: Vec<i64> = (0..200).map(|_| if rng.chance(1, 2) { boundary_i64(&mut rng) } else { rng.next_u64() as i64 }).collect();
+    samples.sort();
+    for v in samples {
+        let real = tantivy_common::i64_to_u64(v);
+        let model = ctx.model.ask(&format!("C03 i64 {}", v as u64));
+        ctx.report.case(&format!("i64|{v}"), true);
+        ctx.report.count("enc:i64");
+        if model != real.to_string() || real != i64_enc(v) {
+            ctx.report.violation("model", "C03:i64-encoding-model-vs-implementation", format!("i64_to_u64({v}) = {real}, model {model}"), json!({"kind":"enc","i64":v}));
+        }
+        let bytes = TermS { f: F_INUM, v: Val::I64(v) };
+        if Some(bytes.bytes()) != bytes.expected_bytes() {
+            ctx.report.violation("oracle", "C03:term-bytes-not-big-endian-of-encoding", format!("i64 term {v}: {:?}", bytes.bytes()), json!({"kind":"enc","i64":v}));
+        }
+        if let Some((pv, pe)) = prev_i {
+            if (pv < v) != (pe < real) {
+                ctx.report.violation("oracle", "C03:i64-encoding-not-monotone", format!("{pv} -> {pe}, {v} -> {real}"), json!({"kind":"enc","i64":v}));
+            }
+        }
+        prev_i = Some((v, real));
+    }
+    let mut fs: Vec<f64> = (0..200).map(|_| f64::from_bits(if rng.chance(1, 2) { boundary_f64(&mut rng) } else { rng.next_u64() })).filter(|f| !f.is_nan()).collect();
+    fs.sort_by(|a, b| a.total_cmp(b));
+    let mut prev_f: Option<(f64, u64)> = None;
+    for v in fs {
+        let real = tantivy_common::f64_to_u64(v);
+        let model = ctx.model.ask(&format!("C03 f64 {}", v.to_bits()));
+        ctx.report.case(&format!("f64|{}", v.to_bits()), true);
+        ctx.report.count("enc:f64");
+        if model != real.to_string() || real != f64_enc(v.to_bits()) {
+            ctx.report.violation("model", "C03:f64-encoding-model-vs-implementation", format!("f64_to_u64({v}) = {real}, model {model}"), json!({"kind":"enc","f64":v.to_bits()}));
+        }
+        if let Some((pv, pe)) = prev_f {
+            if (pv.total_cmp(&v) == std::cmp::Ordering::Less) != (pe < real) {
+                ctx.report.violation("oracle", "C03:f64-encoding-not-monotone", format!("{pv} -> {pe}, {v} -> {real}"), json!({"kind":"enc","f64":v.to_bits()}));
+            }
+        }
+        prev_f = Some((v, real));
+    }
+}
+
+// ---------------------------------------------------------------------------------------------
+// known findings, replayed first on their minimal witnesses
+// ---------------------------------------------------------------------------------------------
+
+fn witness_corpus() -> CorpusSpec {
+    let texts = ["a b c", "a c b", "a x b c", "b a", "a", "c b a", "a b x c", "a a b c c", "x y", "b c a b c"];
+    let docs = texts.iter().enumerate().map(|(i, t)| DocSpec { id: 1000 + i as u64, body: Some(t.to_string()), ..Default::default() }).collect();
+    CorpusSpec { docs, chunks: vec![6, 4], cut: 0, deletes: vec![(1, 1004)], merge: false }
+}
+
+fn known_witnesses(ctx: &mut Ctx) {
+    let spec = witness_corpus();
+    let b = match build(&spec) { Ok(b) => b, Err(e) => { ctx.report.notes.push(format!("witness corpus failed to build: {e}")); return; } };
+    let a = || Q::Term(TermS { f: F_BODY, v: Val::Str("a".into()) });
+    let qs = vec![
+        Q::Bool(vec![(Oc::Should, a())], Some(2)),
+        Q::Bool(vec![(Oc::Must, a())], Some(1)),
+        Q::Bool(vec![(Oc::Should, a()), (Oc::Should, Q::Term(TermS { f: F_BODY, v: Val::Str("b".into()) }))], Some(3)),
+        Q::Phrase { f: F_BODY, terms: vec![(0, "a".into()), (1, "b".into()), (2, "c".into())], slop: 1 },
+        Q::Phrase { f: F_BODY, terms: vec![(0, "a".into()), (1, "b".into()), (2, "c".into())], slop: 2 },
+    ];
+    check_queries(ctx, &spec, &b, &qs);
+}
+
+/// Small-scope exhaustive enumeration of the boolean decision logic: every boolean query with up
+/// to `max_clauses` clauses over six leaf kinds (a term, another term, a term present in every
+/// document — `AllScorer` when scoring is off —, an absent term — `EmptyScorer` —, AllQuery,
+/// EmptyQuery) × every occur assignment × every minimum_should_match in 0..=n+1 and the default,
+/// each also nested under a MUST clause of an outer boolean, on a fixed two-segment corpus with a
+/// deleted document.
+fn exhaustive_bool(ctx: &mut Ctx, max_clauses: usize) {
+    let mut spec = witness_corpus();
+    for d in spec.docs.iter_mut() {
+        d.body = Some(format!("{} z", d.body.clone().unwrap_or_default()));
+    }
+    let b = match build(&spec) { Ok(b) => b, Err(e) => { ctx.report.notes.push(format!("exhaustive corpus failed to build: {e}")); return; } };
+    let t = |w: &str| Q::Term(TermS { f: F_BODY, v: Val::Str(w.into()) });
+    let leaves = vec![t("a"), t("b"), t("z"), t("absentword"), Q::All, Q::Empty];
+    let occs = [Oc::Must, Oc::Should, Oc::MustNot];
+    let mut batch: Vec<Q> = vec![];
+    let mut total = 0u64;
+    for n in 0..=max_clauses {
+        let combos = leaves.len().pow(n as u32) * occs.len().pow(n as u32);
+        for code in 0..combos {
+            let mut c = code;
+            let mut cs: Vec<(Oc, Q)> = vec![];
+            for _ in 0..n {
+                let l = c % leaves.len(); c /= leaves.len();
+                let o = c % occs.len(); c /= occs.len();
+                cs.push((occs[o], leaves[l].clone()));
+            }
+            let mut msms: Vec<Option<usize>> = vec![None];
+            msms.extend((0..=n + 1).map(Some));
+            for msm in msms {
+                let q = Q::Bool(cs.clone(), msm);
+                // nested under an outer MUST next to a term: the inner weight goes through `scorer()`
+                if code % 3 == 0 { batch.push(Q::Bool(vec![(Oc::Must, q.clone()), (Oc::Should, t("c"))], None)); }
+                batch.push(q);
+                total += 1;
+                if batch.len() >= 24 {
+                    check_queries(ctx, &spec, &b, &batch);
+                    batch.clear();
+                }
+            }
+        }
+    }
+    check_queries(ctx, &spec, &b, &batch);
+    ctx.report.count_n("exhaustive-bool:queries", total);
+}
+
+pub fn replay(ctx: &mut Ctx, case: &serde_json::Value) {
+    match case["kind"].as_str().unwrap_or("") {
+        "query" | "phrase-algorithms" => {
+            let spec: CorpusSpec = match serde_json::from_value(case["corpus"].clone()) { Ok(s) => s, Err(e) => { ctx.report.notes.push(format!("replay: bad corpus: {e}")); return; } };
+            let q: Q = match serde_json::from_value(case["query"].clone()) { Ok(q) => q, Err(e) => { ctx.report.notes.push(format!("replay: bad query: {e}")); return; } };
+            match build(&spec) {
+                Ok(b) => {
+                    check_queries(ctx, &spec, &b, &[q.clone()]);
+                    ctx.report.notes.push(format!("replayed {:?}", q));
+                    // shrink by clauses: every leaf of the tree on its own
+                    if std::env::var("C03_SPLIT").is_ok() {
+                        let mut ls = vec![];
+                        q.leaves(&mut ls);
+                        check_queries(ctx, &spec, &b, &ls);
+                    }
+                }
+                Err(e) => ctx.report.violation("oracle", "C03:index-build-failed", e, case.clone()),
+            }
+        }
+        "enc" => check_encodings(ctx),
+        k => ctx.report.notes.push(format!("replay kind {k:?} re-runs the generated stream")),
+    }
+}
 
 pub fn run(ctx: &mut Ctx) {
-    ctx.report.notes.push("C03: harness not built yet".into());
+    ctx.report.rule = "case = (corpus, query) pair evaluated through all collector paths, or (document, sloppy phrase, scoring) for the slop algorithms, or one encoded value; \
+        non-trivial (corpus, query): ≥ 2 segments or ≥ 1 delete, query depth ≥ 2, result non-empty and not all live documents; phrase case: all terms present in the document".into();
+    ctx.report.correspondence_obligations = vec![
+        "oracle: Count = DocSetCollector = TopDocs(limit ≥ n) = tuple collector = Query::count = Weight::scorer/count (scoring on and off) as id sets".into(),
+        "oracle: every path = brute-force answer over analysed live documents (Lean `answer`)".into(),
+        "native Rust evaluator = Lean `answer`".into(),
+        "real result = Lean `searchIds leafTree scoring` (compile model incl. single-clause shortcut)".into(),
+        "Query::count = Lean Σ weightCount".into(),
+        "known deviations are attributed only when Lean okQ (F4 / S6 hypotheses) is false on the query and the implementation model reproduces every real path".into(),
+        "phrase slop: real scoring-on / scoring-off scorers = Lean phraseOn / phraseOff per document".into(),
+        "i64_to_u64 / f64_to_u64 = Gen.OrderEnc (extracted), monotone on sorted samples, term bytes = big-endian".into(),
+        "exhaustive boolean trees (≤ 2 clauses quick, ≤ 3 thorough) × occur × msm over term/all/empty leaf kinds: all paths = answer = compile model".into(),
+    ];
+    std::panic::set_hook(Box::new(|info| {
+        if let Ok(mut g) = LAST_PANIC.lock() {
+            *g = info.to_string().chars().take(300).collect();
+        }
+    }));
+    if let Some(case) = ctx.replay.clone() {
+        replay(ctx, &case);
+        return;
+    }
+    known_witnesses(ctx);
+    check_encodings(ctx);
+    let max_clauses = ctx.budget(2, 3) as usize;
+    exhaustive_bool(ctx, max_clauses);
+    let n_corpora = ctx.budget(44, 900);
+    let per_small = ctx.budget(40, 70) as usize;
+    for ci in 0..n_corpora {
+        let mut rng = ctx.rng.fork();
+        let size_class = match ci % 11 { 0 => 0, 1..=6 => 1, 7 | 8 => 2, 9 => 1, _ => if ci % 22 == 10 { 3 } else { 2 } };
+        let spec = gen_corpus(&mut rng, size_class);
+        let b = match catch_unwind(AssertUnwindSafe(|| build(&spec))) {
+            Ok(Ok(b)) => b,
+            Ok(Err(e)) => { ctx.report.violation("oracle", "C03:index-build-failed", e, json!({"kind":"corpus","corpus":spec})); continue; }
+            Err(_) => { ctx.report.violation("oracle", "C03:panic", "index build panicked".into(), json!({"kind":"corpus","corpus":spec})); continue; }
+        };
+        ctx.report.count(&format!("corpus:size-class-{size_class}"));
+        ctx.report.count(&format!("corpus:segments-{}", b.segs.len().min(7)));
+        if spec.merge { ctx.report.count("corpus:merged"); }
+        if spec.cut > 0 { ctx.report.count("corpus:segment-cut-hook"); }
+        if b.segs.iter().any(|s| s.iter().any(|d| !d.1)) { ctx.report.count("corpus:with-deleted-docs"); }
+        if b.segs.iter().any(|s| s.len() == 1) { ctx.report.count("corpus:single-doc-segment"); }
+        // sanity of the corpus itself (C02's subject, cheap to assert here)
+        let live: BTreeSet<u64> = b.segs.iter().flat_map(|s| s.iter()).filter(|d| d.1).map(|d| d.0.id).collect();
+        if live != b.expected_live {
+            ctx.report.violation("oracle", "C03:live-set-mismatch", format!("live ids differ from adds minus deletes: {} vs {}", live.len(), b.expected_live.len()), json!({"kind":"corpus","corpus":spec}));
+            continue;
+        }
+        let pools = pools_of(&b);
+        let nq = match size_class { 3 => 10, 2 => per_small / 2, _ => per_small };
+        let mut qs: Vec<Q> = vec![];
+        for k in 0..nq {
+            let depth = match k % 8 { 0 => 0, 1 | 2 => 1, 3 | 4 | 5 => 2, 6 => 3, _ => 4 };
+            qs.push(gen_query(&mut rng, depth, &pools));
+        }
+        // keep hitting the known single-clause shortcut, nested too
+        let leaf = gen_leaf(&mut rng, &pools);
+        qs.push(Q::Bool(vec![(Oc::Should, leaf.clone())], Some(2 + rng.usize_below(2))));
+        qs.push(Q::Bool(vec![(Oc::Must, Q::Bool(vec![(Oc::Must, leaf.clone())], Some(1))), (Oc::Should, gen_leaf(&mut rng, &pools))], None));
+        for chunk in qs.chunks(16) {
+            check_queries(ctx, &spec, &b, chunk);
+        }
+        if size_class <= 1 {
+            check_phrase_algorithms(ctx, &spec, &b, &mut rng, 6);
+        }
+    }
 }
